@@ -184,7 +184,6 @@ struct LoopSpec {
   sneg: bool,   // the step is written `i - s`
   cont: &'static str, // effective continue condition `i OP bound`
   ir: R,        // declared range of i (all values i takes, including the exit value)
-  init: Vec<(usize, R)>, // per accumulator parameter: the range allowed for the initial value
   maxtrips: i64,
 }
 #[derive(Clone)]
@@ -234,11 +233,6 @@ struct Ctx {
   pure: bool,
 }
 impl Ctx {
-  fn with(&self, name: &str, ty: &Ty, r: R) -> Ctx {
-    let mut c = self.clone();
-    c.vars.push(Var { name: name.to_string(), ty: ty.clone(), r, ld: self.ld });
-    c
-  }
   fn push(&mut self, name: &str, ty: &Ty, r: R) {
     let ld = self.ld;
     self.vars.push(Var { name: name.to_string(), ty: ty.clone(), r, ld });
@@ -349,6 +343,4006 @@ struct G {
   impure: bool,
 }
 
-include!("progs_gen_world.rs");
-include!("progs_gen_expr.rs");
-include!("progs_gen_fns.rs");
+// ---------------------------------------------------------------------------------------------
+// the class world: modules, class templates, show methods, the pool of value types
+// ---------------------------------------------------------------------------------------------
+impl G {
+  fn new(seed: u64, prof: Profile, allow: BTreeSet<String>) -> G {
+    let mut g = G {
+      rng: Rng::new(seed),
+      prof,
+      allow,
+      classes: vec![],
+      cidx: HashMap::new(),
+      sigs: vec![],
+      feats: BTreeSet::new(),
+      nname: 0,
+      nlibs: 1,
+      pool: vec![],
+      cost: 0,
+      curlevel: 0,
+      boundary: prof == Profile::Boundary,
+      marker: 0,
+      impure: false,
+    };
+    // std classes known to the generator
+    let t = || Ty::T("T".into());
+    g.add_class(Class {
+      name: "List".into(),
+      module: STD,
+      tparams: vec!["T".into()],
+      kind: Kind::Enum(vec![Variant { name: "Nil".into(), args: vec![] }, Variant { name: "Cons".into(), args: vec![(t(), ANY), (Ty::list(t()), LLEN)] }]),
+      rec: false,
+      private: false,
+      supers: String::new(),
+      members: vec![],
+    });
+    g.add_class(Class {
+      name: "Option".into(),
+      module: STD,
+      tparams: vec!["T".into()],
+      kind: Kind::Enum(vec![Variant { name: "None".into(), args: vec![] }, Variant { name: "Some".into(), args: vec![(t(), ANY)] }]),
+      rec: false,
+      private: false,
+      supers: String::new(),
+      members: vec![],
+    });
+    g.add_class(Class {
+      name: "Pair".into(),
+      module: STD,
+      tparams: vec!["E0".into(), "E1".into()],
+      kind: Kind::Struct(vec![
+        Field { name: "e0".into(), ty: Ty::T("E0".into()), r: ANY, private: false },
+        Field { name: "e1".into(), ty: Ty::T("E1".into()), r: ANY, private: false },
+      ]),
+      rec: false,
+      private: false,
+      supers: String::new(),
+      members: vec![],
+    });
+    g
+  }
+
+  fn add_class(&mut self, c: Class) -> usize {
+    self.cidx.insert(c.name.clone(), self.classes.len());
+    self.classes.push(c);
+    self.classes.len() - 1
+  }
+
+  fn int_field_range(&mut self) -> R {
+    if self.boundary && self.rng.chance(1, 3) {
+      return FULL;
+    }
+    *self.rng.pick(&[(-100, 100), (0, 100), (-1000, 1000), (-50, 50), (0, 9), (1, 20), (-20, -1)])
+  }
+
+  /// a type usable for fields / payloads in module `m` (earlier, non-generic, constructible classes)
+  fn member_ty(&mut self, m: usize, class_bias: u32) -> (Ty, R) {
+    let strs = self.prof == Profile::Strings;
+    let x = self.rng.below(10) as u32;
+    if x < class_bias {
+      let cs: Vec<String> = self
+        .classes
+        .iter()
+        .filter(|c| c.module != STD && c.module <= m && c.tparams.is_empty() && !c.private && matches!(c.kind, Kind::Struct(_) | Kind::Enum(_)))
+        .map(|c| c.name.clone())
+        .collect();
+      if !cs.is_empty() {
+        let n = cs[self.rng.below(cs.len())].clone();
+        let t = Ty::cls(&n);
+        let r = self.dflt(&t);
+        return (t, r);
+      }
+    }
+    match self.rng.below(if strs { 12 } else { 10 }) {
+      0..=4 => (Ty::Int, self.int_field_range()),
+      5 => (Ty::Bool, ANY),
+      6 if self.rng.chance(1, 3) => (Ty::option(Ty::Int), ANY),
+      6 if self.rng.chance(1, 2) => (Ty::list(Ty::Int), LLEN),
+      _ => (Ty::Str, SLEN),
+    }
+  }
+
+  // ------------------------------------------------------------------ templates
+  fn t_struct(&mut self, m: usize, with_private: bool) -> String {
+    let name = self.fresh("Rec");
+    let nf = 1 + self.rng.below(4);
+    let mut fields = vec![];
+    for i in 0..nf {
+      let (ty, r) = self.member_ty(m, 2);
+      let private = with_private && (i == 0 || self.rng.chance(1, 3));
+      fields.push(Field { name: format!("f{}", (b'a' + i as u8) as char), ty, r, private });
+    }
+    if with_private {
+      self.feat("private-field");
+    }
+    self.add_class(Class { name: name.clone(), module: m, tparams: vec![], kind: Kind::Struct(fields), rec: false, private: false, supers: String::new(), members: vec![] });
+    name
+  }
+
+  fn some_struct(&mut self, m: usize) -> String {
+    let cs: Vec<String> = self
+      .classes
+      .iter()
+      .filter(|c| c.module != STD && c.module <= m && c.tparams.is_empty() && !c.private && matches!(&c.kind, Kind::Struct(fs) if fs.iter().all(|f| !f.private)))
+      .map(|c| c.name.clone())
+      .collect();
+    if !cs.is_empty() && self.rng.chance(2, 3) {
+      cs[self.rng.below(cs.len())].clone()
+    } else {
+      self.t_struct(m, false)
+    }
+  }
+
+  fn some_enum(&mut self, m: usize) -> String {
+    let cs: Vec<String> =
+      self.classes.iter().filter(|c| c.module != STD && c.module <= m && c.tparams.is_empty() && !c.private && !c.rec && matches!(c.kind, Kind::Enum(_))).map(|c| c.name.clone()).collect();
+    if !cs.is_empty() && self.rng.chance(2, 3) {
+      cs[self.rng.below(cs.len())].clone()
+    } else {
+      let s = *self.rng.pick(&[0usize, 1, 2, 5]);
+      self.t_enum(m, s)
+    }
+  }
+
+  fn vname(&mut self, base: &str, i: usize) -> String {
+    format!("{base}{}", (b'A' + i as u8) as char)
+  }
+
+  /// enum shapes (see the module comment); returns the (first) class name
+  fn t_enum(&mut self, m: usize, shape: usize) -> String {
+    let name = self.fresh(match shape {
+      7 => "Lst",
+      8 => "Tre",
+      9 => "Ev",
+      10 => "Chn",
+      11 => "Wrp",
+      12 => "Exp",
+      _ => "Sum",
+    });
+    let mut rec = false;
+    let me = Ty::cls(&name);
+    let mut variants: Vec<Variant> = vec![];
+    let mut extra: Option<Class> = None;
+    match shape {
+      0 => {
+        let n = 2 + self.rng.below(4);
+        for i in 0..n {
+          variants.push(Variant { name: self.vname(&name, i), args: vec![] });
+        }
+        self.feat("enum-nullary-only");
+      }
+      1 => {
+        variants.push(Variant { name: self.vname(&name, 0), args: vec![] });
+        variants.push(Variant { name: self.vname(&name, 1), args: vec![(Ty::Int, self.int_field_range())] });
+        if self.rng.chance(1, 2) {
+          variants.push(Variant { name: self.vname(&name, 2), args: vec![] });
+        }
+        self.feat("enum-int-payload");
+      }
+      2 => {
+        variants.push(Variant { name: self.vname(&name, 0), args: vec![(Ty::Str, SLEN)] });
+        variants.push(Variant { name: self.vname(&name, 1), args: vec![] });
+        self.feat("enum-str-payload");
+      }
+      3 => {
+        let s = self.some_struct(m);
+        variants.push(Variant { name: self.vname(&name, 0), args: vec![] });
+        variants.push(Variant { name: self.vname(&name, 1), args: vec![(Ty::cls(&s), ANY)] });
+        if self.rng.chance(1, 2) {
+          variants.push(Variant { name: self.vname(&name, 2), args: vec![(Ty::Int, self.int_field_range())] });
+        }
+        self.feat("enum-struct-payload");
+      }
+      4 => {
+        let e = self.some_enum(m);
+        variants.push(Variant { name: self.vname(&name, 0), args: vec![(Ty::cls(&e), ANY)] });
+        variants.push(Variant { name: self.vname(&name, 1), args: vec![] });
+        if self.rng.chance(1, 2) {
+          variants.push(Variant { name: self.vname(&name, 2), args: vec![(Ty::Bool, ANY)] });
+        }
+        self.feat("enum-enum-payload");
+      }
+      5 => {
+        let second = if self.rng.chance(1, 2) { (Ty::Str, SLEN) } else { (Ty::Int, self.int_field_range()) };
+        variants.push(Variant { name: self.vname(&name, 0), args: vec![(Ty::Int, self.int_field_range()), second] });
+        variants.push(Variant { name: self.vname(&name, 1), args: vec![] });
+        self.feat("enum-two-payload-fields");
+      }
+      6 => {
+        let n = 3 + self.rng.below(2);
+        for i in 0..n {
+          let k = 1 + self.rng.below(3);
+          let mut args = vec![];
+          for _ in 0..k {
+            args.push(self.member_ty(m, 2));
+          }
+          variants.push(Variant { name: self.vname(&name, i), args });
+        }
+        if self.rng.chance(1, 2) {
+          variants.push(Variant { name: self.vname(&name, n), args: vec![] });
+        }
+        self.feat("enum-many-payload-variants");
+      }
+      7 => {
+        rec = true;
+        let payload = if self.rng.chance(3, 4) { (Ty::Int, self.int_field_range()) } else { (Ty::Str, SLEN) };
+        variants.push(Variant { name: self.vname(&name, 0), args: vec![] });
+        variants.push(Variant { name: self.vname(&name, 1), args: vec![payload, (me.clone(), NODES)] });
+        self.feat("enum-list-like");
+      }
+      8 => {
+        rec = true;
+        variants.push(Variant { name: self.vname(&name, 0), args: vec![] });
+        variants.push(Variant { name: self.vname(&name, 1), args: vec![(me.clone(), NODES), (Ty::Int, self.int_field_range()), (me.clone(), NODES)] });
+        self.feat("enum-tree");
+      }
+      9 => {
+        rec = true;
+        let other = self.fresh("Od");
+        let ot = Ty::cls(&other);
+        variants.push(Variant { name: self.vname(&name, 0), args: vec![] });
+        variants.push(Variant { name: self.vname(&name, 1), args: vec![(ot.clone(), NODES)] });
+        let mut ovs = vec![Variant { name: self.vname(&other, 0), args: vec![(me.clone(), NODES)] }];
+        if self.rng.chance(1, 2) {
+          ovs.push(Variant { name: self.vname(&other, 1), args: vec![(Ty::Int, self.int_field_range()), (me.clone(), NODES)] });
+        }
+        extra = Some(Class { name: other, module: m, tparams: vec![], kind: Kind::Enum(ovs), rec: true, private: false, supers: String::new(), members: vec![] });
+        self.feat("enum-mutually-recursive");
+      }
+      10 => {
+        rec = true;
+        variants.push(Variant { name: self.vname(&name, 0), args: vec![] });
+        variants.push(Variant { name: self.vname(&name, 1), args: vec![(me.clone(), NODES)] });
+        self.feat("enum-self-only-payload");
+      }
+      11 => {
+        let e = self.some_enum(m);
+        variants.push(Variant { name: self.vname(&name, 0), args: vec![(Ty::cls(&e), ANY)] });
+        self.feat("enum-single-variant-enum-payload");
+      }
+      13 => {
+        // several variants with the same payload type (or-patterns can share bindings)
+        let n = 2 + self.rng.below(3);
+        let payload = if self.rng.chance(3, 4) { (Ty::Int, self.int_field_range()) } else { (Ty::Str, SLEN) };
+        for i in 0..n {
+          variants.push(Variant { name: self.vname(&name, i), args: vec![payload.clone()] });
+        }
+        if self.rng.chance(1, 2) {
+          variants.push(Variant { name: self.vname(&name, n), args: vec![] });
+        }
+        self.feat("enum-same-payload-variants");
+      }
+      _ => {
+        rec = true;
+        variants.push(Variant { name: self.vname(&name, 0), args: vec![(Ty::Int, (-50, 50))] });
+        variants.push(Variant { name: self.vname(&name, 1), args: vec![(me.clone(), NODES), (me.clone(), NODES)] });
+        variants.push(Variant { name: self.vname(&name, 2), args: vec![(me.clone(), NODES)] });
+        self.feat("enum-expression-like");
+      }
+    }
+    self.add_class(Class { name: name.clone(), module: m, tparams: vec![], kind: Kind::Enum(variants), rec, private: false, supers: String::new(), members: vec![] });
+    if let Some(c) = extra {
+      self.add_class(c);
+    }
+    name
+  }
+
+  /// generic classes: 0 Box<T>, 1 Opt<T>, 2 Tree<T>
+  fn t_generic(&mut self, m: usize, which: usize) -> String {
+    let t = Ty::T("T".into());
+    match which {
+      0 => {
+        let name = self.fresh("Box");
+        let me = Ty::C(name.clone(), vec![t.clone()]);
+        let members = vec![
+          format!("method show(f: (T) -> Str): Str = \"{name}(\" :: f(this.v) :: \")\""),
+          "method get(): T = this.v".to_string(),
+          format!("method replace(x: T): {} = {name}.init(x)", me.txt()),
+          format!("method <R> map(f: (T) -> R): {name}<R> = {name}.init(f(this.v))"),
+        ];
+        self.add_class(Class {
+          name: name.clone(),
+          module: m,
+          tparams: vec!["T".into()],
+          kind: Kind::Struct(vec![Field { name: "v".into(), ty: t, r: ANY, private: false }]),
+          rec: false,
+          private: false,
+          supers: String::new(),
+          members,
+        });
+        self.feat("generic-box");
+        name
+      }
+      1 => {
+        let name = self.fresh("Opt");
+        let (none, some) = (format!("{name}N"), format!("{name}S"));
+        let me = Ty::C(name.clone(), vec![t.clone()]);
+        let members = vec![
+          format!("method show(f: (T) -> Str): Str =\nmatch this {{\n{none} -> \"{none}\",\n{some}(x) -> \"{some}(\" :: f(x) :: \")\",\n}}"),
+          format!("method getOr(d: T): T = if let {some}(x) = this {{ x }} else {{ d }}"),
+          format!("method isSome(): bool =\nmatch this {{\n{none} -> false,\n{some}(_) -> true,\n}}"),
+          format!("method mapSame(f: (T) -> T): {} =\nmatch this {{\n{none} -> {name}.{none}<T>(),\n{some}(x) -> {name}.{some}(f(x)),\n}}", me.txt()),
+        ];
+        self.add_class(Class {
+          name: name.clone(),
+          module: m,
+          tparams: vec!["T".into()],
+          kind: Kind::Enum(vec![Variant { name: none, args: vec![] }, Variant { name: some, args: vec![(t, ANY)] }]),
+          rec: false,
+          private: false,
+          supers: String::new(),
+          members,
+        });
+        self.feat("generic-opt");
+        name
+      }
+      _ => {
+        let name = self.fresh("GTree");
+        let (leaf, node) = (format!("{name}L"), format!("{name}N"));
+        let me = Ty::C(name.clone(), vec![t.clone()]);
+        let members = vec![
+          format!("method show(f: (T) -> Str): Str =\nmatch this {{\n{leaf} -> \".\",\n{node}(l, v, r) -> \"(\" :: l.show(f) :: f(v) :: r.show(f) :: \")\",\n}}"),
+          format!("method size(): int =\nmatch this {{\n{leaf} -> 0,\n{node}(l, _, r) -> (l.size() + 1) + r.size(),\n}}"),
+          format!("method mirror(): {} =\nmatch this {{\n{leaf} -> this,\n{node}(l, v, r) -> {name}.{node}(r.mirror(), v, l.mirror()),\n}}", me.txt()),
+          format!("method <A> fold(f: (A, T) -> A, z: A): A =\nmatch this {{\n{leaf} -> z,\n{node}(l, v, r) -> r.fold(f, f(l.fold(f, z), v)),\n}}"),
+        ];
+        self.add_class(Class {
+          name: name.clone(),
+          module: m,
+          tparams: vec!["T".into()],
+          kind: Kind::Enum(vec![Variant { name: leaf, args: vec![] }, Variant { name: node, args: vec![(me.clone(), NODES), (t, ANY), (me, NODES)] }]),
+          rec: true,
+          private: false,
+          supers: String::new(),
+          members,
+        });
+        self.feat("generic-tree");
+        name
+      }
+    }
+  }
+
+  /// registers the monomorphic method signatures of a generic class instantiation
+  fn register_generic_inst(&mut self, ty: &Ty) {
+    let Ty::C(n, a) = ty else { return };
+    let Some(c) = self.class(n) else { return };
+    if c.module == STD {
+      return;
+    }
+    let (module, arg) = (c.module, a[0].clone());
+    let mk = |name: &str, params: Vec<(String, Ty, R)>, ret: Ty, rr: R, cost: u64| Sig {
+      cls: n.clone(),
+      recv: Some(ty.clone()),
+      name: name.into(),
+      params,
+      ret,
+      rr,
+      level: 1,
+      cost,
+      private: false,
+      modpriv: false,
+      module,
+      kind: SK::Plain,
+      used: 0,
+      noref: false,
+      pure: true,
+      feats: vec!["generic-method-call"],
+    };
+    let da = self.dflt(&arg);
+    if n.starts_with("Box") {
+      self.sigs.push(mk("get", vec![], arg.clone(), da, 3));
+      self.sigs.push(mk("replace", vec![("x".into(), arg.clone(), da)], ty.clone(), ANY, 3));
+      self.sigs.push(mk("map", vec![("f".into(), Ty::func(vec![arg.clone()], arg.clone()), ANY)], ty.clone(), ANY, 60));
+    } else if n.starts_with("Opt") {
+      self.sigs.push(mk("getOr", vec![("d".into(), arg.clone(), da)], arg.clone(), da, 5));
+      self.sigs.push(mk("isSome", vec![], Ty::Bool, ANY, 5));
+      self.sigs.push(mk("mapSame", vec![("f".into(), Ty::func(vec![arg.clone()], arg.clone()), ANY)], ty.clone(), ANY, 60));
+    } else if n.starts_with("GTree") {
+      self.sigs.push(mk("size", vec![], Ty::Int, NODES, 400));
+      self.sigs.push(mk("mirror", vec![], ty.clone(), NODES, 600));
+    }
+  }
+
+  /// interface + implementing classes + bounded-generic consumers
+  fn t_iface(&mut self, m: usize) {
+    let generic = self.rng.chance(3, 5);
+    let iname = self.fresh(if generic { "Cmp" } else { "Scored" });
+    let body = if generic { "method cmp(other: T): int".to_string() } else { "method score(): int\nmethod label(): Str".to_string() };
+    self.add_class(Class {
+      name: iname.clone(),
+      module: m,
+      tparams: if generic { vec!["T".into()] } else { vec![] },
+      kind: Kind::Iface(body),
+      rec: false,
+      private: false,
+      supers: String::new(),
+      members: vec![],
+    });
+    let nimpl = 1 + self.rng.below(2);
+    let mut impls = vec![];
+    for k in 0..nimpl {
+      let as_enum = k == 1 && self.rng.chance(1, 2);
+      let cname = if as_enum {
+        let shape = *self.rng.pick(&[1usize, 5, 0]);
+        self.t_enum(m, shape)
+      } else {
+        self.t_struct(m, false)
+      };
+      let ci = self.cidx[&cname];
+      self.classes[ci].supers = if generic { format!(" : {iname}<{cname}>") } else { format!(" : {iname}") };
+      let me = Ty::cls(&cname);
+      // a pure int-valued "weight" method, then the interface methods on top of it
+      let cx = self.method_ctx(&cname, m, 2);
+      self.begin_fn();
+      let w = self.gen_int(&cx, 2, (-5000, 5000));
+      let (lvl, cost, pure) = self.end_fn();
+      let wr = w.r;
+      self.classes[ci].members.push(format!("method weight(): int = {}", w.s));
+      self.sigs.push(Sig {
+        cls: cname.clone(),
+        recv: Some(me.clone()),
+        name: "weight".into(),
+        params: vec![],
+        ret: Ty::Int,
+        rr: wr,
+        level: lvl,
+        cost,
+        private: false,
+        modpriv: false,
+        module: m,
+        kind: SK::Plain,
+        used: 0,
+        noref: false,
+        pure,
+        feats: vec![],
+      });
+      if generic {
+        self.classes[ci].members.push(format!("method cmp(other: {cname}): int = this.weight() - other.weight()"));
+        self.sigs.push(Sig {
+          cls: cname.clone(),
+          recv: Some(me.clone()),
+          name: "cmp".into(),
+          params: vec![("other".into(), me.clone(), ANY)],
+          ret: Ty::Int,
+          rr: rminus(wr, wr),
+          level: lvl + 1,
+          cost: cost * 2 + 5,
+          private: false,
+          modpriv: false,
+          module: m,
+          kind: SK::Plain,
+          used: 0,
+          noref: false,
+          pure,
+          feats: vec!["interface-impl-call"],
+        });
+      } else {
+        self.classes[ci].members.push("method score(): int = this.weight()".into());
+        self.classes[ci].members.push(format!("method label(): Str = \"{cname}#\" :: Str.fromInt(this.weight())"));
+        for (nm, ret, rr) in [("score", Ty::Int, wr), ("label", Ty::Str, (0, cname.len() as i64 + 12))] {
+          self.sigs.push(Sig {
+            cls: cname.clone(),
+            recv: Some(me.clone()),
+            name: nm.into(),
+            params: vec![],
+            ret,
+            rr,
+            level: lvl + 1,
+            cost: cost + 5,
+            private: false,
+            modpriv: false,
+            module: m,
+            kind: SK::Plain,
+            used: 0,
+            noref: false,
+            pure,
+            feats: vec!["interface-impl-call"],
+          });
+        }
+      }
+      impls.push((cname, wr, lvl, cost, pure));
+    }
+    // the bounded-generic consumers live in a utility class
+    let uname = self.fresh("Ord");
+    let bound = if generic { format!("{iname}<T>") } else { iname.clone() };
+    let mut members = vec![];
+    if generic {
+      members.push(format!("function <T: {bound}> max(a: T, b: T): T = if a.cmp(b) >= 0 {{ a }} else {{ b }}"));
+      members.push(format!("function <T: {bound}> min3(a: T, b: T, c: T): T = {{\nlet m = if a.cmp(b) <= 0 {{ a }} else {{ b }};\nif m.cmp(c) <= 0 {{ m }} else {{ c }}\n}}"));
+      members.push(format!("function <T: {bound}> ordered(a: T, b: T, c: T): bool = a.cmp(b) <= 0 && b.cmp(c) <= 0"));
+    } else {
+      members.push(format!("function <T: {bound}> best(a: T, b: T): T = if a.score() >= b.score() {{ a }} else {{ b }}"));
+      members.push(format!("function <T: {bound}> total(a: T, b: T): int = a.score() + b.score()"));
+      members.push(format!("function <T: {bound}> describe(a: T): Str = a.label() :: \"!\""));
+    }
+    self.add_class(Class { name: uname.clone(), module: m, tparams: vec![], kind: Kind::Util, rec: false, private: false, supers: String::new(), members });
+    for (cname, wr, lvl, cost, pure) in impls {
+      let me = Ty::cls(&cname);
+      let p = |n: &str| (n.to_string(), me.clone(), ANY);
+      let list: Vec<(&str, Vec<(String, Ty, R)>, Ty, R)> = if generic {
+        vec![("max", vec![p("a"), p("b")], me.clone(), ANY), ("min3", vec![p("a"), p("b"), p("c")], me.clone(), ANY), ("ordered", vec![p("a"), p("b"), p("c")], Ty::Bool, ANY)]
+      } else {
+        vec![("best", vec![p("a"), p("b")], me.clone(), ANY), ("total", vec![p("a"), p("b")], Ty::Int, radd(wr, wr)), ("describe", vec![p("a")], Ty::Str, (0, cname.len() as i64 + 13))]
+      };
+      for (nm, params, ret, rr) in list {
+        self.sigs.push(Sig {
+          cls: uname.clone(),
+          recv: None,
+          name: nm.into(),
+          params,
+          ret,
+          rr,
+          level: lvl + 2,
+          cost: cost * 4 + 10,
+          private: false,
+          modpriv: false,
+          module: m,
+          kind: SK::Plain,
+          used: 0,
+          noref: true,
+          pure,
+          feats: vec!["bounded-generic", "interface-call"],
+        });
+      }
+    }
+    self.feat("interface");
+  }
+
+  // ------------------------------------------------------------------ show methods
+  fn emit_show(&mut self, ci: usize) {
+    let c = self.classes[ci].clone();
+    if !c.tparams.is_empty() {
+      return;
+    }
+    let name = c.name.clone();
+    let text = match &c.kind {
+      Kind::Struct(fs) => {
+        let mut parts = vec![format!("\"{name}(\"")];
+        for (i, f) in fs.iter().enumerate() {
+          if i > 0 {
+            parts.push("\",\"".into());
+          }
+          parts.push(self.show_expr(&f.ty, &format!("this.{}", f.name), 0));
+        }
+        parts.push("\")\"".into());
+        format!("method show(): Str = {}", parts.join(" :: "))
+      }
+      Kind::Enum(vs) => {
+        let mut arms = vec![];
+        for v in vs {
+          if v.args.is_empty() {
+            arms.push(format!("{} -> \"{}\",", v.name, v.name));
+          } else {
+            let names: Vec<String> = (0..v.args.len()).map(|i| format!("a{i}")).collect();
+            let mut parts = vec![format!("\"{}(\"", v.name)];
+            for (i, (t, _)) in v.args.iter().enumerate() {
+              if i > 0 {
+                parts.push("\",\"".into());
+              }
+              parts.push(self.show_expr(t, &names[i], 0));
+            }
+            parts.push("\")\"".into());
+            arms.push(format!("{}({}) -> {},", v.name, names.join(", "), parts.join(" :: ")));
+          }
+        }
+        format!("method show(): Str =\nmatch this {{\n{}\n}}", arms.join("\n"))
+      }
+      _ => return,
+    };
+    self.classes[ci].members.push(text);
+  }
+
+  /// structural recursion over a recursive enum: `sum` (ints + children) and `depth`
+  fn emit_structural(&mut self, ci: usize) {
+    let c = self.classes[ci].clone();
+    if !c.rec || !c.tparams.is_empty() {
+      return;
+    }
+    let Kind::Enum(vs) = &c.kind else { return };
+    let me = Ty::cls(&c.name);
+    let mut arms_sum = vec![];
+    let mut arms_depth = vec![];
+    let mut per_node: R = (0, 0);
+    for v in vs {
+      let names: Vec<String> = (0..v.args.len()).map(|i| format!("a{i}")).collect();
+      let mut parts: Vec<String> = vec![];
+      let mut dparts: Vec<String> = vec![];
+      let mut node: R = (1, 1);
+      for (i, (t, r)) in v.args.iter().enumerate() {
+        if *t == Ty::Int {
+          parts.push(names[i].clone());
+          node = radd(node, if *r == FULL { STORE } else { *r });
+        } else if self.is_rec(t) {
+          parts.push(format!("{}.sum()", names[i]));
+          dparts.push(format!("{}.depth()", names[i]));
+        }
+      }
+      per_node = hull(per_node, node);
+      let pat = if v.args.is_empty() {
+        v.name.clone()
+      } else {
+        let ns: Vec<String> = v.args.iter().enumerate().map(|(i, (t, r))| if (*t == Ty::Int && *r != FULL) || self.is_rec(t) { names[i].clone() } else { "_".into() }).collect();
+        format!("{}({})", v.name, ns.join(", "))
+      };
+      let mut s = "1".to_string();
+      for p in parts.iter().filter(|p| v.args.iter().enumerate().all(|(i, (_, r))| names[i] != **p || *r != FULL)) {
+        s = format!("({s} + {p})");
+      }
+      arms_sum.push(format!("{pat} -> {s},"));
+      let dpat = if v.args.is_empty() {
+        v.name.clone()
+      } else {
+        let ns: Vec<String> = v.args.iter().enumerate().map(|(i, (t, _))| if self.is_rec(t) { names[i].clone() } else { "_".into() }).collect();
+        format!("{}({})", v.name, ns.join(", "))
+      };
+      let dexpr = match dparts.len() {
+        0 => "0".to_string(),
+        1 => format!("1 + {}", dparts[0]),
+        _ => format!("{{\nlet dl = {};\nlet dr = {};\n1 + (if dl > dr {{ dl }} else {{ dr }})\n}}", dparts[0], dparts[1]),
+      };
+      arms_depth.push(format!("{dpat} -> {dexpr},"));
+    }
+    self.classes[ci].members.push(format!("method sum(): int =\nmatch this {{\n{}\n}}", arms_sum.join("\n")));
+    self.classes[ci].members.push(format!("method depth(): int =\nmatch this {{\n{}\n}}", arms_depth.join("\n")));
+    let n = NODES.1;
+    for (nm, rr) in [("sum", (per_node.0.min(0) * n, per_node.1.max(0) * n)), ("depth", (0, n))] {
+      self.sigs.push(Sig {
+        cls: c.name.clone(),
+        recv: Some(me.clone()),
+        name: nm.into(),
+        params: vec![],
+        ret: Ty::Int,
+        rr,
+        level: 1,
+        cost: 500,
+        private: false,
+        modpriv: false,
+        module: c.module,
+        kind: SK::Plain,
+        used: 0,
+        noref: false,
+        pure: true,
+        feats: vec!["structural-recursion"],
+      });
+    }
+    if vs.iter().any(|v| v.args.iter().any(|a| a.0 != me && self.is_rec(&a.0))) {
+      self.feat("mutual-recursion");
+    }
+  }
+
+  // ------------------------------------------------------------------ world
+  fn build_world(&mut self) {
+    self.nlibs = 1 + self.rng.below(3);
+    let prof = self.prof;
+    // the template schedule
+    let mut enum_shapes: Vec<usize> = (0..14).collect();
+    for i in (1..enum_shapes.len()).rev() {
+      let j = self.rng.below(i + 1);
+      enum_shapes.swap(i, j);
+    }
+    let mut next_shape = 0usize;
+    for m in 0..self.nlibs {
+      let ncls = match prof {
+        Profile::Enums => 3 + self.rng.below(2),
+        Profile::Loops | Profile::Boundary | Profile::Strings => 1 + self.rng.below(2),
+        _ => 1 + self.rng.below(4),
+      };
+      for _ in 0..ncls {
+        if self.line_estimate() > 90 {
+          break;
+        }
+        let x = self.rng.below(100);
+        let (p_struct, p_enum, p_generic, p_iface) = match prof {
+          Profile::Enums => (8, 72, 15, 5),
+          Profile::Closures => (30, 25, 25, 20),
+          Profile::Loops | Profile::Boundary => (50, 30, 10, 10),
+          Profile::Strings => (50, 30, 10, 10),
+          Profile::Mixed => (25, 40, 15, 20),
+        };
+        if x < p_struct {
+          let wp = self.rng.chance(1, 3);
+          self.t_struct(m, wp);
+        } else if x < p_struct + p_enum {
+          let shape = enum_shapes[next_shape % enum_shapes.len()];
+          next_shape += 1;
+          self.t_enum(m, shape);
+        } else if x < p_struct + p_enum + p_generic {
+          let w = self.rng.below(3);
+          self.t_generic(m, w);
+        } else if x < p_struct + p_enum + p_generic + p_iface {
+          self.t_iface(m);
+        }
+      }
+    }
+    // pool of value types
+    let mut pool: Vec<Ty> = vec![];
+    let names: Vec<(String, bool, bool)> =
+      self.classes.iter().filter(|c| c.module != STD && matches!(c.kind, Kind::Struct(_) | Kind::Enum(_))).map(|c| (c.name.clone(), !c.tparams.is_empty(), c.name.starts_with("Opt"))).collect();
+    for (n, generic, is_opt) in names {
+      if !generic {
+        pool.push(Ty::cls(&n));
+        continue;
+      }
+      let arg = match self.rng.below(4) {
+        0 => Ty::Str,
+        1 => {
+          let cs: Vec<Ty> = pool.iter().filter(|t| matches!(t, Ty::C(_, a) if a.is_empty()) && !self.is_rec(t)).cloned().collect();
+          if cs.is_empty() {
+            Ty::Int
+          } else {
+            cs[self.rng.below(cs.len())].clone()
+          }
+        }
+        _ => Ty::Int,
+      };
+      let t1 = Ty::C(n.clone(), vec![arg.clone()]);
+      pool.push(t1.clone());
+      if is_opt {
+        // nested Opt<Opt<Opt<int>>>
+        let t2 = Ty::C(n.clone(), vec![Ty::C(n.clone(), vec![Ty::Int])]);
+        let t3 = Ty::C(n.clone(), vec![t2.clone()]);
+        if t1 != Ty::C(n.clone(), vec![Ty::Int]) {
+          pool.push(Ty::C(n.clone(), vec![Ty::Int]));
+        }
+        pool.push(t2);
+        if self.rng.chance(2, 3) {
+          pool.push(t3);
+          self.feat("nested-generic-opt3");
+        }
+      }
+    }
+    pool.push(Ty::list(Ty::Int));
+    pool.push(Ty::option(Ty::Int));
+    if self.rng.chance(1, 2) {
+      pool.push(Ty::pair(Ty::Int, Ty::Str));
+    }
+    if self.rng.chance(1, 2) || prof == Profile::Strings {
+      pool.push(Ty::list(Ty::Str));
+    }
+    if self.rng.chance(1, 3) {
+      pool.push(Ty::option(Ty::option(Ty::Int)));
+    }
+    let enum_tys: Vec<Ty> = pool.iter().filter(|t| matches!(t, Ty::C(_, a) if a.is_empty()) && self.variants_of(t).is_some() && !self.is_rec(t)).cloned().collect();
+    if !enum_tys.is_empty() && self.rng.chance(1, 2) {
+      let e = enum_tys[self.rng.below(enum_tys.len())].clone();
+      pool.push(if self.rng.chance(1, 2) { Ty::option(e) } else { Ty::pair(e.clone(), Ty::option(Ty::Int)) });
+    }
+    if self.rng.chance(1, 2) || prof == Profile::Closures {
+      pool.push(Ty::func(vec![Ty::Int], Ty::Int));
+    }
+    if prof == Profile::Closures {
+      pool.push(Ty::func(vec![Ty::Int, Ty::Int], Ty::Int));
+      pool.push(Ty::func(vec![Ty::Int], Ty::Bool));
+      if self.rng.chance(1, 2) {
+        pool.push(Ty::func(vec![Ty::Str], Ty::Str));
+      }
+      if self.rng.chance(1, 2) {
+        pool.push(Ty::list(Ty::func(vec![Ty::Int], Ty::Int)));
+      }
+    }
+    if self.rng.chance(1, 4) {
+      pool.push(Ty::V(Box::new(Ty::Int)));
+    }
+    self.pool = pool.clone();
+    for t in &pool {
+      if matches!(t, Ty::C(_, a) if !a.is_empty()) {
+        self.register_generic_inst(t);
+        // inner instantiations of nested generics
+        if let Ty::C(_, a) = t {
+          if let Ty::C(n2, a2) = &a[0] {
+            if !a2.is_empty() && !pool.contains(&a[0]) && self.class(n2).map(|c| c.module != STD).unwrap_or(false) {
+              self.register_generic_inst(&a[0].clone());
+            }
+          }
+        }
+      }
+    }
+  }
+
+  fn line_estimate(&self) -> usize {
+    let mut n = 0;
+    for c in &self.classes {
+      if c.module == STD {
+        continue;
+      }
+      n += 3;
+      for m in &c.members {
+        n += m.matches('\n').count() + 2;
+      }
+      // the show method still to come
+      n += match &c.kind {
+        Kind::Enum(vs) => vs.len() + 3,
+        Kind::Struct(_) => 2,
+        _ => 0,
+      };
+    }
+    n
+  }
+}
+
+// ---------------------------------------------------------------------------------------------
+// type-directed expression generation
+// ---------------------------------------------------------------------------------------------
+impl G {
+  fn fresh(&mut self, p: &str) -> String {
+    self.nname += 1;
+    format!("{p}{}", self.nname)
+  }
+  fn feat(&mut self, f: &'static str) {
+    self.feats.insert(f);
+  }
+  fn allowed(&self, what: &str) -> bool {
+    self.allow.contains(what)
+  }
+  fn class(&self, n: &str) -> Option<&Class> {
+    self.cidx.get(n).map(|i| &self.classes[*i])
+  }
+  fn is_rec(&self, ty: &Ty) -> bool {
+    matches!(ty, Ty::C(n, _) if self.class(n).map(|c| c.rec).unwrap_or(false))
+  }
+  fn is_list(ty: &Ty) -> bool {
+    matches!(ty, Ty::C(n, _) if n == "List")
+  }
+  fn sized(&self, ty: &Ty) -> bool {
+    matches!(ty, Ty::Int | Ty::Str) || Self::is_list(ty) || self.is_rec(ty)
+  }
+  /// the size every *stored / passed* value of this type is guaranteed to have
+  fn dflt(&self, ty: &Ty) -> R {
+    match ty {
+      Ty::Int => STORE,
+      Ty::Str => SLEN,
+      _ if Self::is_list(ty) => LLEN,
+      _ if self.is_rec(ty) => NODES,
+      _ => ANY,
+    }
+  }
+  /// the size tolerated for locals / results
+  fn wide(&self, ty: &Ty) -> R {
+    match ty {
+      Ty::Int => {
+        if self.boundary {
+          FULL
+        } else {
+          WIDE
+        }
+      }
+      Ty::Str => SWIDE,
+      _ => self.dflt(ty),
+    }
+  }
+  fn fits(&self, ty: &Ty, r: R, want: R) -> bool {
+    match ty {
+      Ty::Int => rsub(r, want),
+      _ if self.sized(ty) => r.1 <= want.1,
+      _ => true,
+    }
+  }
+  fn tmap(&self, ty: &Ty) -> Vec<(String, Ty)> {
+    if let Ty::C(n, args) = ty {
+      if let Some(c) = self.class(n) {
+        return c.tparams.iter().cloned().zip(args.iter().cloned()).collect();
+      }
+    }
+    vec![]
+  }
+  fn fields_of(&self, ty: &Ty) -> Option<Vec<Field>> {
+    if let Ty::C(n, _) = ty {
+      let c = self.class(n)?;
+      if let Kind::Struct(fs) = &c.kind {
+        let m = self.tmap(ty);
+        return Some(
+          fs.iter()
+            .map(|f| {
+              let t = f.ty.subst(&m);
+              let r = if matches!(f.ty, Ty::T(_)) || t != f.ty { self.dflt(&t) } else { f.r };
+              Field { name: f.name.clone(), ty: t, r, private: f.private }
+            })
+            .collect(),
+        );
+      }
+    }
+    None
+  }
+  fn variants_of(&self, ty: &Ty) -> Option<Vec<Variant>> {
+    if let Ty::C(n, _) = ty {
+      let c = self.class(n)?;
+      if let Kind::Enum(vs) = &c.kind {
+        let m = self.tmap(ty);
+        return Some(
+          vs.iter()
+            .map(|v| Variant {
+              name: v.name.clone(),
+              args: v
+                .args
+                .iter()
+                .map(|(t, r)| {
+                  let t2 = t.subst(&m);
+                  let r2 = if t2 != *t { self.dflt(&t2) } else { *r };
+                  (t2, r2)
+                })
+                .collect(),
+            })
+            .collect(),
+        );
+      }
+    }
+    None
+  }
+  fn fields_accessible(&self, ty: &Ty, cx: &Ctx) -> bool {
+    match (ty, self.fields_of(ty)) {
+      (Ty::C(n, _), Some(fs)) => fs.iter().all(|f| !f.private) || cx.cls == *n,
+      _ => false,
+    }
+  }
+  /// construction rank (1 = constructible without any class-typed argument)
+  fn rank(&self, ty: &Ty, seen: &mut Vec<Ty>) -> u32 {
+    match ty {
+      Ty::C(..) => {
+        if seen.contains(ty) {
+          return 1000;
+        }
+        seen.push(ty.clone());
+        let r = if let Some(fs) = self.fields_of(ty) {
+          1 + fs.iter().map(|f| self.rank(&f.ty, seen)).max().unwrap_or(0)
+        } else if let Some(vs) = self.variants_of(ty) {
+          vs.iter().map(|v| 1 + v.args.iter().map(|a| self.rank(&a.0, seen)).max().unwrap_or(0)).min().unwrap_or(1000)
+        } else {
+          1
+        };
+        seen.pop();
+        r.min(1000)
+      }
+      _ => 0,
+    }
+  }
+  fn targs(ty: &Ty) -> String {
+    match ty {
+      Ty::C(_, a) if !a.is_empty() => format!("<{}>", a.iter().map(|t| t.txt()).collect::<Vec<_>>().join(", ")),
+      _ => String::new(),
+    }
+  }
+  /// receivers / callees are generated without side effects (the known callee-before-arguments region)
+  fn recv_cx(&self, cx: &Ctx) -> Ctx {
+    let mut c = cx.clone();
+    if !self.allowed("callee-order") {
+      c.pure = true;
+    }
+    c
+  }
+  fn spend(&mut self, c: u64) {
+    self.cost = self.cost.saturating_add(c);
+  }
+
+  // ------------------------------------------------------------------ minimal values
+  fn minimal(&mut self, ty: &Ty, cx: &Ctx, want: R) -> E {
+    match ty {
+      Ty::Int => {
+        let v = if want.0 <= 0 && want.1 >= 0 {
+          let lo = want.0.max(-9);
+          let hi = want.1.min(9);
+          lo + self.rng.below((hi - lo + 1) as usize) as i64
+        } else if want.0 > 0 {
+          want.0 + self.rng.below(((want.1 - want.0).min(9) + 1) as usize) as i64
+        } else {
+          want.1 - self.rng.below(((want.1 - want.0).min(9) + 1) as usize) as i64
+        };
+        atom(lit(v), (v, v))
+      }
+      Ty::Bool => atom(if self.rng.chance(1, 2) { "true".into() } else { "false".into() }, ANY),
+      Ty::Str => self.str_lit(want.1.min(8)),
+      Ty::Unit => atom("{  }".into(), ANY),
+      Ty::V(t) => atom(format!("Vec.empty<{}>()", t.txt()), ANY),
+      Ty::F(ps, ret) => {
+        let names: Vec<String> = ps.iter().map(|_| self.fresh("q")).collect();
+        let body = self.minimal(ret, cx, self.dflt(ret));
+        let plist = names.iter().zip(ps.iter()).map(|(n, t)| format!("{n}: {}", t.txt())).collect::<Vec<_>>().join(", ");
+        opx(format!("({plist}) -> {}", body.s), ANY)
+      }
+      Ty::T(_) => atom("Process.panic(\"tvar\")".into(), ANY),
+      Ty::C(n, targs) => {
+        if n == "List" {
+          return atom(format!("List.nil<{}>()", targs[0].txt()), (0, 0));
+        }
+        if n == "Option" {
+          return atom(format!("Option.None<{}>()", targs[0].txt()), ANY);
+        }
+        if let Some(fs) = self.fields_of(ty) {
+          let args: Vec<String> = fs.iter().map(|f| self.minimal(&f.ty, cx, f.r).s).collect();
+          if n == "Pair" {
+            return atom(format!("({})", args.join(", ")), ANY);
+          }
+          return atom(format!("{n}.init({})", args.join(", ")), ANY);
+        }
+        if let Some(vs) = self.variants_of(ty) {
+          let mut best = 0;
+          let mut br = u32::MAX;
+          for (i, v) in vs.iter().enumerate() {
+            let rk = v.args.iter().map(|a| self.rank(&a.0, &mut vec![ty.clone()])).max().unwrap_or(0);
+            if rk < br {
+              br = rk;
+              best = i;
+            }
+          }
+          let v = &vs[best];
+          let mut nodes = 1;
+          let mut args = vec![];
+          for (t, r) in &v.args {
+            let w = if self.is_rec(t) { (0, ((want.1 - 1).max(1)) / (v.args.len() as i64).max(1)) } else { *r };
+            let e = self.minimal(t, cx, w);
+            if self.is_rec(t) {
+              nodes += e.r.1;
+            }
+            args.push(e.s);
+          }
+          let ta = if v.args.iter().any(|a| a.0.txt().contains(|_c: char| false)) { String::new() } else { Self::targs(ty) };
+          return atom(format!("{n}.{}{}({})", v.name, ta, args.join(", ")), if self.is_rec(ty) { (0, nodes) } else { ANY });
+        }
+        atom("Process.panic(\"novalue\")".into(), ANY)
+      }
+    }
+  }
+
+  fn str_lit(&mut self, maxlen: i64) -> E {
+    const WORDS: [&str; 14] = ["a", "b", "xy", "abc", "foo", "bar", "q", "zz", "hey", "ok", "no", "w", "id", "k"];
+    let strs = self.prof == Profile::Strings;
+    let n = self.rng.below(if strs { 4 } else { 3 });
+    let mut raw_len = 0i64;
+    let mut s = String::new();
+    for _ in 0..n {
+      let piece: String = if self.rng.chance(if strs { 2 } else { 1 }, 6) {
+        // printable ASCII and the escapes \n \t \\ \"
+        let specials = ["\\n", "\\t", "\\\\", "\\\"", " ", "`", "$", "${", "}", "'", "#", "%", "<", "&", "~", "!", "?", ":", ";", "/", "*", "-", "+", "=", "(", ")", "[", "]", "|", "^", "@", ",", "."];
+        (*self.rng.pick(&specials)).to_string()
+      } else if self.rng.chance(1, 5) {
+        format!("{}", self.rng.below(100))
+      } else {
+        (*self.rng.pick(&WORDS)).to_string()
+      };
+      let plen = if piece.starts_with('\\') { 1 } else { piece.len() as i64 };
+      if raw_len + plen > maxlen {
+        break;
+      }
+      raw_len += plen;
+      s.push_str(&piece);
+    }
+    atom(format!("\"{s}\""), (0, raw_len))
+  }
+
+  // ------------------------------------------------------------------ entry points
+  fn gen(&mut self, ty: &Ty, cx: &Ctx, d: u32, want: R) -> E {
+    self.spend(1);
+    if d > 0 {
+      for _ in 0..4 {
+        if let Some(e) = self.try_prod(ty, cx, d, want) {
+          if self.fits(ty, e.r, want) {
+            return e;
+          }
+        }
+      }
+    }
+    if self.rng.chance(2, 3) {
+      if let Some(e) = self.p_var(ty, cx, want) {
+        return e;
+      }
+    }
+    if let Some(e) = self.p_leaf(ty, cx, want) {
+      if self.fits(ty, e.r, want) {
+        return e;
+      }
+    }
+    self.minimal(ty, cx, want)
+  }
+
+  fn gen_int(&mut self, cx: &Ctx, d: u32, want: R) -> E {
+    self.gen(&Ty::Int, cx, d, want)
+  }
+  fn gen_bool(&mut self, cx: &Ctx, d: u32) -> E {
+    self.gen(&Ty::Bool, cx, d, ANY)
+  }
+
+  /// leaf productions other than variables
+  fn p_leaf(&mut self, ty: &Ty, cx: &Ctx, want: R) -> Option<E> {
+    match ty {
+      Ty::Int => Some(self.int_lit(want)),
+      Ty::Str => Some(self.str_lit(want.1.min(10))),
+      Ty::Bool => {
+        let ints: Vec<(String, R)> = cx.visible().into_iter().filter(|v| v.ty == Ty::Int).map(|v| (v.name.clone(), v.r)).collect();
+        if ints.is_empty() {
+          return None;
+        }
+        let (n, r) = ints[self.rng.below(ints.len())].clone();
+        let lo = r.0.max(-20);
+        let hi = r.1.min(20).max(lo);
+        let c = lo + self.rng.below((hi - lo + 1) as usize) as i64;
+        let o = *self.rng.pick(&["<", "<=", ">", ">=", "==", "!="]);
+        Some(opx(format!("{n} {o} {}", lit(c)), ANY))
+      }
+      Ty::C(..) => {
+        if self.rng.chance(1, 2) {
+          self.p_field(ty, cx, want)
+        } else {
+          self.p_ctor(ty, cx, 0, want)
+        }
+      }
+      _ => None,
+    }
+  }
+
+  fn int_lit(&mut self, want: R) -> E {
+    let v = if self.boundary && want == FULL && self.rng.chance(3, 5) {
+      let specials: [i64; 16] = [
+        IMAX, IMAX - 1, IMAX - 7, IMIN, IMIN + 1, IMIN + 9, 1073741824, 1073741823, -1073741824, -1073741825, 65536, 46341, 46340,
+        2147483600, -2147483600, 1000000007,
+      ];
+      *self.rng.pick(&specials)
+    } else {
+      let span = match self.rng.below(10) {
+        0..=5 => 10,
+        6..=8 => 100,
+        _ => 1000,
+      };
+      let lo = want.0.max(-span);
+      let hi = want.1.min(span);
+      if lo > hi {
+        if want.0 > 0 {
+          want.0
+        } else {
+          want.1
+        }
+      } else {
+        lo + self.rng.below((hi - lo + 1) as usize) as i64
+      }
+    };
+    if v == IMIN {
+      return atom("(-2147483648)".into(), (v, v));
+    }
+    atom(lit(v), (v, v))
+  }
+
+  /// an int expression whose value the generator knows exactly
+  fn point(&mut self, v: i64) -> E {
+    let digits_ok = v.abs() <= 999_999_999;
+    match self.rng.below(6) {
+      0 | 1 if digits_ok => atom(format!("\"{v}\".toInt()"), (v, v)),
+      2 if v.abs() < 100000 => {
+        let a = self.rng.below(20) as i64 - 10;
+        opx(format!("{} + {}", lit(v - a), lit(a)), (v, v))
+      }
+      _ => {
+        if v == IMIN {
+          atom("(-2147483648)".into(), (v, v))
+        } else {
+          atom(lit(v), (v, v))
+        }
+      }
+    }
+  }
+
+  fn pick_weighted<'a, T>(&mut self, items: &'a [(u32, T)]) -> &'a T {
+    let total: u32 = items.iter().map(|i| i.0).sum();
+    let mut x = self.rng.below(total as usize) as u32;
+    for (w, t) in items {
+      if x < *w {
+        return t;
+      }
+      x -= w;
+    }
+    &items[items.len() - 1].1
+  }
+
+  fn try_prod(&mut self, ty: &Ty, cx: &Ctx, d: u32, want: R) -> Option<E> {
+    let clos = self.prof == Profile::Closures;
+    let enums = self.prof == Profile::Enums;
+    let strs = self.prof == Profile::Strings;
+    let mut prods: Vec<(u32, &'static str)> = vec![
+      (9, "var"),
+      (5, "call"),
+      (4, "mcall"),
+      (5, "field"),
+      (2, "if"),
+      (if enums { 6 } else { 3 }, "match"),
+      (2, "block"),
+      (if enums { 2 } else { 1 }, "iflet"),
+      (if clos { 4 } else { 1 }, "lamcall"),
+      (if clos { 4 } else { 1 }, "fncall"),
+    ];
+    match ty {
+      Ty::Int => prods.extend([
+        (2, "lit"),
+        (7, "arith"),
+        (2, "mod"),
+        (2, "div"),
+        (1, "neg"),
+        (if strs { 4 } else { 1 }, "toint"),
+        (1, "len"),
+        (if clos { 4 } else { 1 }, "fold"),
+        (1, "vecblock"),
+        (1, "valuemap"),
+      ]),
+      Ty::Bool => prods.extend([(8, "cmp"), (3, "logic"), (1, "not"), (if strs { 5 } else { 1 }, "streq"), (1, "listpred"), (1, "lit")]),
+      Ty::Str => prods.extend([(3, "lit"), (6, "concat"), (4, "fromint"), (2, "showof")]),
+      Ty::C(n, _) if n == "List" => prods.extend([(4, "listbuild"), (5, "listop")]),
+      Ty::C(n, _) if n == "Option" => prods.extend([(3, "ctor"), (3, "optop")]),
+      Ty::C(..) => prods.extend([(8, "ctor")]),
+      Ty::F(..) => prods.extend([(8, "lambda"), (if clos { 10 } else { 5 }, "fnref")]),
+      Ty::V(_) => prods.extend([(6, "vecbuild")]),
+      Ty::Unit => prods.extend([(4, "print")]),
+      Ty::T(_) => {}
+    }
+    let p = *self.pick_weighted(&prods);
+    match p {
+      "var" => self.p_var(ty, cx, want),
+      "call" => self.p_call(ty, cx, d, want, false),
+      "mcall" => self.p_call(ty, cx, d, want, true),
+      "field" => self.p_field(ty, cx, want),
+      "if" => self.p_if(ty, cx, d, want),
+      "match" => self.p_match(ty, cx, d, want),
+      "block" => self.p_block(ty, cx, d, want),
+      "iflet" => self.p_iflet(ty, cx, d, want),
+      "lamcall" => self.p_lamcall(ty, cx, d, want),
+      "fncall" => self.p_fncall(ty, cx, d, want),
+      "lit" => self.p_leaf(ty, cx, want).or_else(|| Some(self.minimal(ty, cx, want))),
+      "arith" => self.p_arith(cx, d, want),
+      "mod" => self.p_mod(cx, d, want),
+      "div" => self.p_div(cx, d, want),
+      "neg" => {
+        let a = self.gen_int(cx, d - 1, rneg(want).0.max(IMIN + 1).min(IMAX).pipe(|lo| (lo, rneg(want).1)));
+        Some(opx(format!("-{}", par(&a)), rneg(a.r)))
+      }
+      "toint" => self.p_toint(cx, d, want),
+      "len" => self.p_len(cx, d, want),
+      "fold" => self.p_fold(cx, d, want),
+      "vecblock" => self.p_vecblock(cx, d, want),
+      "valuemap" => self.p_valuemap(cx, d, want),
+      "cmp" => {
+        let w = self.wide(&Ty::Int);
+        let a = self.gen_int(cx, d - 1, w);
+        let b = self.gen_int(cx, d - 1, w);
+        let ops = ["<", "<=", ">", ">=", "==", "!="];
+        let o = *self.rng.pick(&ops);
+        // `x.f < e` would be parsed as the start of a type-argument list
+        let left = if o == "<" && a.k == K::Atom && a.s.contains('.') && !a.s.starts_with('(') { format!("({})", a.s) } else { par(&a) };
+        Some(opx(format!("{left} {o} {}", par(&b)), ANY))
+      }
+      "logic" => {
+        let a = self.gen_bool(cx, d - 1);
+        let b = self.gen_bool(cx, d - 1);
+        let o = if self.rng.chance(1, 2) { "&&" } else { "||" };
+        Some(opx(format!("{} {o} {}", par(&a), par(&b)), ANY))
+      }
+      "not" => {
+        let a = self.gen_bool(cx, d - 1);
+        Some(opx(format!("!{}", par(&a)), ANY))
+      }
+      "streq" => {
+        let a = self.gen(&Ty::Str, cx, d - 1, SWIDE);
+        let b = self.gen(&Ty::Str, cx, d - 1, SWIDE);
+        self.feat("str-eq");
+        let o = if self.rng.chance(1, 2) { "==" } else { "!=" };
+        Some(opx(format!("{} {o} {}", par(&a), par(&b)), ANY))
+      }
+      "listpred" => self.p_listpred(cx, d),
+      "concat" => {
+        let half = (0, want.1 / 2);
+        if half.1 < 2 {
+          return None;
+        }
+        let a = self.gen(&Ty::Str, cx, d - 1, half);
+        let b = self.gen(&Ty::Str, cx, d - 1, half);
+        self.feat("str-concat");
+        Some(opx(format!("{} :: {}", par(&a), par(&b)), (0, a.r.1 + b.r.1)))
+      }
+      "fromint" => {
+        if want.1 < 11 {
+          return None;
+        }
+        let w = self.wide(&Ty::Int);
+        let a = self.gen_int(cx, d - 1, w);
+        self.feat("str-fromint");
+        Some(atom(format!("Str.fromInt({})", a.s), (0, 11)))
+      }
+      "showof" => self.p_showof(cx, want),
+      "ctor" => self.p_ctor(ty, cx, d, want),
+      "listbuild" => self.p_listbuild(ty, cx, d, want),
+      "listop" => self.p_listop(ty, cx, d, want),
+      "optop" => self.p_optop(ty, cx, d),
+      "lambda" => self.p_lambda(ty, cx, d),
+      "fnref" => self.p_fnref(ty, cx),
+      "vecbuild" => self.p_vecbuild(ty, cx, d),
+      "print" => {
+        if cx.pure {
+          return None;
+        }
+        self.impure = true;
+        let s = self.gen(&Ty::Str, cx, d - 1, SWIDE);
+        Some(atom(format!("Process.println({})", s.s), ANY))
+      }
+      _ => None,
+    }
+  }
+
+  // ------------------------------------------------------------------ generic productions
+  fn p_var(&mut self, ty: &Ty, cx: &Ctx, want: R) -> Option<E> {
+    let mut cands: Vec<(String, R, u32)> =
+      cx.visible().into_iter().filter(|v| v.ty == *ty && self.fits(ty, v.r, want)).map(|v| (v.name.clone(), v.r, v.ld)).collect();
+    if cx.this.as_ref() == Some(ty) && self.fits(ty, self.dflt(ty), want) {
+      cands.push(("this".into(), self.dflt(ty), 0));
+    }
+    if cands.is_empty() {
+      return None;
+    }
+    let (n, r, ld) = cands[self.rng.below(cands.len())].clone();
+    if cx.ld > ld {
+      if n == "this" {
+        self.feat("lambda-capture-this");
+      } else {
+        self.feat("lambda-capture");
+      }
+    }
+    Some(atom(n, r))
+  }
+
+  /// receivers: variables (or `this`) of a struct type, used for field access
+  fn p_field(&mut self, ty: &Ty, cx: &Ctx, want: R) -> Option<E> {
+    let mut cands: Vec<(String, Field, u32)> = vec![];
+    let mut holders: Vec<(String, Ty, u32)> = cx.visible().into_iter().map(|v| (v.name.clone(), v.ty.clone(), v.ld)).collect();
+    if let Some(t) = &cx.this {
+      holders.push(("this".into(), t.clone(), 0));
+    }
+    for (n, t, ld) in holders {
+      if let (Ty::C(cn, _), Some(fs)) = (&t, self.fields_of(&t)) {
+        for f in fs {
+          if f.ty == *ty && (!f.private || cx.cls == *cn) && self.fits(ty, f.r, want) {
+            cands.push((n.clone(), f, ld));
+          }
+        }
+      }
+    }
+    if cands.is_empty() {
+      return None;
+    }
+    let (n, f, ld) = cands[self.rng.below(cands.len())].clone();
+    if cx.ld > ld {
+      self.feat(if n == "this" { "lambda-capture-this" } else { "lambda-capture" });
+    }
+    self.feat("field-access");
+    Some(atom(format!("{n}.{}", f.name), f.r))
+  }
+
+  fn sig_visible(&self, s: &Sig, cx: &Ctx) -> bool {
+    if s.module != STD && s.module > cx.module {
+      return false;
+    }
+    if s.private && s.cls != cx.cls {
+      return false;
+    }
+    if s.modpriv && s.module != cx.module {
+      return false;
+    }
+    if s.level > cx.maxlevel || (cx.pure && !s.pure) {
+      return false;
+    }
+    let c = s.cost.saturating_mul(cx.mult);
+    c <= CALLCAP && self.cost.saturating_add(c) <= FNCAP
+  }
+
+  /// `(expr % m)` so that the result fits `want` (when the callee's result range is too wide)
+  fn clamp_mod(&mut self, e: E, want: R) -> Option<E> {
+    if rsub(e.r, want) {
+      return Some(e);
+    }
+    let m = (-want.0).min(want.1) + 1;
+    if m < 2 || e.r == FULL && !self.boundary {
+      return None;
+    }
+    let m = m.min(1000);
+    let r = rmodlit(e.r, m);
+    Some(opx(format!("{} % {m}", par(&e)), r))
+  }
+
+  fn p_call(&mut self, ty: &Ty, cx: &Ctx, d: u32, want: R, method: bool) -> Option<E> {
+    let mut cands: Vec<usize> = vec![];
+    for (i, s) in self.sigs.iter().enumerate() {
+      if s.ret == *ty && s.recv.is_some() == method && self.sig_visible(s, cx) {
+        let ok = match ty {
+          Ty::Int => true,
+          _ => self.fits(ty, s.rr, want),
+        };
+        if ok {
+          cands.push(i);
+        }
+      }
+    }
+    if cands.is_empty() {
+      return None;
+    }
+    // prefer functions that have not been called yet
+    let unused: Vec<usize> = cands.iter().cloned().filter(|i| self.sigs[*i].used == 0).collect();
+    let pickfrom = if !unused.is_empty() && self.rng.chance(2, 3) { unused } else { cands };
+    let i = pickfrom[self.rng.below(pickfrom.len())];
+    let e = self.call_sig(i, cx, d.saturating_sub(1), None)?;
+    if *ty == Ty::Int {
+      self.clamp_mod(e, want)
+    } else {
+      Some(e)
+    }
+  }
+
+  /// generates a call of `sigs[i]`; `recv` overrides the receiver expression of a method
+  fn call_sig(&mut self, i: usize, cx: &Ctx, d: u32, recv: Option<String>) -> Option<E> {
+    let s = self.sigs[i].clone();
+    let head = match (&s.recv, recv) {
+      (_, Some(r)) => r,
+      (Some(rt), None) => {
+        let rcx = self.recv_cx(cx);
+        let e = if d >= 1 && self.rng.chance(1, 3) {
+          self.gen(rt, &rcx, d - 1, self.dflt(rt))
+        } else {
+          match self.p_var(rt, cx, self.dflt(rt)) {
+            Some(e) => e,
+            None if self.variants_of(rt).is_some() => self.deep_value(rt, &rcx, 2, self.dflt(rt)),
+            None => self.gen(rt, &rcx, d.min(1), self.dflt(rt)),
+          }
+        };
+        par(&e)
+      }
+      (None, None) => s.cls.clone(),
+    };
+    let mut args: Vec<String> = vec![];
+    match &s.kind {
+      SK::Plain => {
+        for (_, t, r) in &s.params {
+          let e = self.gen(t, cx, d, *r);
+          args.push(e.s);
+        }
+      }
+      SK::Loop(spec) => {
+        args = self.loop_args(&s, spec, cx, d)?;
+      }
+    }
+    self.sigs[i].used += 1;
+    self.spend(s.cost.saturating_mul(cx.mult));
+    self.curlevel = self.curlevel.max(s.level + 1);
+    if !s.pure {
+      self.impure = true;
+    }
+    for f in &s.feats {
+      self.feats.insert(f);
+    }
+    if s.recv.is_some() {
+      self.feat("method-call");
+    }
+    Some(atom(format!("{head}.{}({})", s.name, args.join(", ")), s.rr))
+  }
+
+  fn p_if(&mut self, ty: &Ty, cx: &Ctx, d: u32, want: R) -> Option<E> {
+    let c = self.gen_bool(cx, d - 1);
+    let a = self.gen(ty, cx, d - 1, want);
+    let b = self.gen(ty, cx, d - 1, want);
+    self.feat("if-else");
+    // chained else-if
+    if b.k == K::Op && b.s.starts_with("if ") {
+      return Some(opx(format!("if {} {} else {}", c.s, braced(&a), b.s), hull(a.r, b.r)));
+    }
+    Some(opx(format!("if {} {} else {}", c.s, braced(&a), braced(&b)), hull(a.r, b.r)))
+  }
+
+  fn matchable(&self, ty: &Ty, cx: &Ctx) -> bool {
+    match ty {
+      Ty::C(n, a) if n == "Pair" => a.iter().any(|t| self.variants_of(t).is_some()),
+      Ty::C(..) => self.variants_of(ty).is_some() || (self.fields_accessible(ty, cx) && self.fields_of(ty).unwrap().iter().any(|f| self.variants_of(&f.ty).is_some())),
+      _ => false,
+    }
+  }
+
+  fn cover(&mut self, ty: &Ty, d: u32, cx: &Ctx, hr: R) -> Vec<Pat> {
+    if d == 0 {
+      return vec![Pat::Hole(ty.clone(), hr)];
+    }
+    if let Some(vs) = self.variants_of(ty) {
+      let mut out = vec![];
+      for v in &vs {
+        let expandable: Vec<usize> = v
+          .args
+          .iter()
+          .enumerate()
+          .filter(|(_, a)| self.variants_of(&a.0).is_some() || matches!(&a.0, Ty::C(n, _) if n == "Pair") || self.fields_accessible(&a.0, cx))
+          .map(|(i, _)| i)
+          .collect();
+        let ei = if d > 1 && !expandable.is_empty() && self.rng.chance(1, 2) { Some(expandable[self.rng.below(expandable.len())]) } else { None };
+        let arg_r = |g: &G, t: &Ty, r: R| if g.is_rec(t) { (0, (hr.1 - 1).max(1)) } else { r };
+        match ei {
+          None => out.push(Pat::Ctor(v.name.clone(), v.args.iter().map(|(t, r)| Pat::Hole(t.clone(), arg_r(self, t, *r))).collect())),
+          Some(ei) => {
+            let (t, r) = v.args[ei].clone();
+            let subr = arg_r(self, &t, r);
+            let sub = self.cover(&t, d - 1, cx, subr);
+            for sp in sub {
+              let ps = v.args.iter().enumerate().map(|(i, (t, r))| if i == ei { sp.clone() } else { Pat::Hole(t.clone(), arg_r(self, t, *r)) }).collect();
+              out.push(Pat::Ctor(v.name.clone(), ps));
+            }
+          }
+        }
+      }
+      return out;
+    }
+    if let Ty::C(n, a) = ty {
+      if n == "Pair" {
+        let ca = if self.variants_of(&a[0]).is_some() && self.rng.chance(3, 4) { self.cover(&a[0], d - 1, cx, self.dflt(&a[0])) } else { vec![Pat::Hole(a[0].clone(), self.dflt(&a[0]))] };
+        let mut cb = if self.variants_of(&a[1]).is_some() && self.rng.chance(3, 4) { self.cover(&a[1], d - 1, cx, self.dflt(&a[1])) } else { vec![Pat::Hole(a[1].clone(), self.dflt(&a[1]))] };
+        if ca.len() * cb.len() > 9 {
+          cb = vec![Pat::Hole(a[1].clone(), self.dflt(&a[1]))];
+        }
+        let mut out = vec![];
+        for x in &ca {
+          for y in &cb {
+            out.push(Pat::Tup(vec![x.clone(), y.clone()]));
+          }
+        }
+        return out;
+      }
+      if self.fields_accessible(ty, cx) {
+        let fs = self.fields_of(ty).unwrap();
+        let expandable: Vec<usize> = fs.iter().enumerate().filter(|(_, f)| self.variants_of(&f.ty).is_some()).map(|(i, _)| i).collect();
+        if !expandable.is_empty() && self.rng.chance(2, 3) {
+          let ei = expandable[self.rng.below(expandable.len())];
+          let sub = self.cover(&fs[ei].ty, d - 1, cx, fs[ei].r);
+          return sub
+            .into_iter()
+            .map(|sp| Pat::Obj(fs.iter().enumerate().map(|(i, f)| (f.name.clone(), if i == ei { sp.clone() } else { Pat::Hole(f.ty.clone(), f.r) })).collect()))
+            .collect();
+        }
+        return vec![Pat::Obj(fs.iter().map(|f| (f.name.clone(), Pat::Hole(f.ty.clone(), f.r))).collect())];
+      }
+    }
+    vec![Pat::Hole(ty.clone(), hr)]
+  }
+
+  /// renders a pattern; `names[k]` is the binding of the k-th hole (None = wildcard)
+  fn render_pat(p: &Pat, names: &[Option<String>], k: &mut usize, top: bool) -> String {
+    match p {
+      Pat::Hole(..) => {
+        let n = names[*k].clone();
+        *k += 1;
+        n.unwrap_or_else(|| "_".into())
+      }
+      Pat::Ctor(n, ps) => {
+        if ps.is_empty() {
+          n.clone()
+        } else {
+          format!("{n}({})", ps.iter().map(|p| Self::render_pat(p, names, k, false)).collect::<Vec<_>>().join(", "))
+        }
+      }
+      Pat::Tup(ps) => format!("({})", ps.iter().map(|p| Self::render_pat(p, names, k, false)).collect::<Vec<_>>().join(", ")),
+      Pat::Obj(fs) => {
+        let _ = top;
+        let inner: Vec<String> = fs
+          .iter()
+          .map(|(f, p)| {
+            let s = Self::render_pat(p, names, k, false);
+            if s == *f {
+              f.clone()
+            } else {
+              format!("{f} as {s}")
+            }
+          })
+          .collect();
+        format!("{{ {} }}", inner.join(", "))
+      }
+    }
+  }
+
+  /// binds the holes of a pattern: returns (names per hole, bound variables)
+  fn bind_holes(&mut self, holes: &[(Ty, R)], all_wild: bool) -> (Vec<Option<String>>, Vec<Var>) {
+    let mut names = vec![];
+    let mut vars = vec![];
+    for (t, r) in holes {
+      if all_wild || self.rng.chance(1, 4) {
+        names.push(None);
+      } else {
+        let n = self.fresh("b");
+        vars.push(Var { name: n.clone(), ty: t.clone(), r: *r, ld: 0 });
+        names.push(Some(n));
+      }
+    }
+    (names, vars)
+  }
+
+  fn pick_scrutinee(&mut self, cx: &Ctx, d: u32) -> Option<(E, Ty)> {
+    let mut cands: Vec<(String, Ty, R)> = cx.visible().into_iter().filter(|v| self.matchable(&v.ty, cx)).map(|v| (v.name.clone(), v.ty.clone(), v.r)).collect();
+    if let Some(t) = &cx.this {
+      if self.matchable(t, cx) {
+        cands.push(("this".into(), t.clone(), self.dflt(t)));
+        cands.push(("this".into(), t.clone(), self.dflt(t)));
+      }
+    }
+    // a tuple of two enum-typed variables
+    let enum_vars: Vec<(String, Ty)> = cx.visible().into_iter().filter(|v| self.variants_of(&v.ty).is_some()).map(|v| (v.name.clone(), v.ty.clone())).collect();
+    if enum_vars.len() >= 2 && self.rng.chance(1, 4) {
+      let a = enum_vars[self.rng.below(enum_vars.len())].clone();
+      let b = enum_vars[self.rng.below(enum_vars.len())].clone();
+      self.feat("tuple-scrutinee");
+      return Some((atom(format!("({}, {})", a.0, b.0), ANY), Ty::pair(a.1, b.1)));
+    }
+    if !cands.is_empty() && self.rng.chance(4, 5) {
+      let (n, t, r) = cands[self.rng.below(cands.len())].clone();
+      return Some((atom(n, r), t));
+    }
+    if d >= 1 {
+      let tys: Vec<Ty> = self.vpool(cx.module).into_iter().filter(|t| self.matchable(t, cx)).collect();
+      if tys.is_empty() {
+        return None;
+      }
+      let t = tys[self.rng.below(tys.len())].clone();
+      let e = self.gen(&t, cx, d - 1, self.dflt(&t));
+      let s = par(&e);
+      let s = if e.k == K::Atom && !s.starts_with('(') && s.contains('(') { format!("({s})") } else { s };
+      return Some((E { s, r: e.r, k: K::Atom }, t));
+    }
+    None
+  }
+
+  fn p_match(&mut self, ty: &Ty, cx: &Ctx, d: u32, want: R) -> Option<E> {
+    let (scrut, sty) = self.pick_scrutinee(cx, d)?;
+    let pd = 1 + self.rng.below(if self.prof == Profile::Enums { 3 } else { 2 }) as u32;
+    let pats = self.cover(&sty, pd, cx, scrut.r);
+    if pats.len() < 2 && matches!(pats[0], Pat::Hole(..)) {
+      return None;
+    }
+    // group alternatives into or-patterns
+    let mut groups: Vec<Vec<Pat>> = vec![];
+    for p in pats {
+      let mut hs = vec![];
+      p.holes(&mut hs);
+      let sig: Vec<Ty> = hs.iter().map(|h| h.0.clone()).collect();
+      // alternatives with the same (non-empty) binding signature can share bindings
+      let same: Vec<usize> = groups
+        .iter()
+        .enumerate()
+        .filter(|(_, g)| {
+          let mut h2 = vec![];
+          g[0].holes(&mut h2);
+          !sig.is_empty() && h2.iter().map(|h| h.0.clone()).collect::<Vec<_>>() == sig
+        })
+        .map(|(i, _)| i)
+        .collect();
+      if !same.is_empty() && self.rng.chance(1, 2) {
+        let gi = same[self.rng.below(same.len())];
+        groups[gi].push(p);
+      } else if !groups.is_empty() && self.rng.chance(1, 6) {
+        let gi = self.rng.below(groups.len());
+        groups[gi].push(p);
+      } else {
+        groups.push(vec![p]);
+      }
+    }
+    // a final wildcard arm replacing the last k groups
+    let mut wildcard = false;
+    if groups.len() >= 2 && self.rng.chance(3, 10) {
+      let k = 1 + self.rng.below(groups.len() - 1);
+      groups.truncate(groups.len() - k);
+      wildcard = true;
+    }
+    let mut arms: Vec<String> = vec![];
+    let mut r: Option<R> = None;
+    let narms = groups.len() + wildcard as usize;
+    let sub_d = if narms > 4 { (d - 1).min(1) } else { d - 1 };
+    for g in &groups {
+      let sigs: Vec<Vec<(Ty, R)>> = g
+        .iter()
+        .map(|p| {
+          let mut h = vec![];
+          p.holes(&mut h);
+          h
+        })
+        .collect();
+      let same = sigs.iter().all(|s| s.iter().map(|x| &x.0).collect::<Vec<_>>() == sigs[0].iter().map(|x| &x.0).collect::<Vec<_>>());
+      let (names, vars) = if g.len() == 1 {
+        self.bind_holes(&sigs[0], false)
+      } else if same {
+        let mut hs = sigs[0].clone();
+        for s in &sigs[1..] {
+          for (k, (_, r)) in s.iter().enumerate() {
+            hs[k].1 = hull(hs[k].1, *r);
+          }
+        }
+        if !hs.is_empty() {
+          self.feat("or-pattern-binding");
+        }
+        self.bind_holes(&hs, false)
+      } else {
+        (vec![], vec![])
+      };
+      let mut alts = vec![];
+      for (ai, p) in g.iter().enumerate() {
+        if p.nested(0) {
+          self.feat("nested-pattern");
+        }
+        if matches!(p, Pat::Obj(..)) || format!("{p:?}").contains("Obj(") {
+          self.feat("struct-pattern");
+        }
+        if matches!(p, Pat::Tup(..)) {
+          self.feat("tuple-pattern");
+        }
+        let nm: Vec<Option<String>> = if g.len() > 1 && !same { vec![None; sigs[ai].len()] } else { names.clone() };
+        alts.push(Self::render_pat(p, &nm, &mut 0, true));
+      }
+      if g.len() > 1 {
+        self.feat("or-pattern");
+      }
+      let mut cx2 = cx.clone();
+      for v in vars {
+        cx2.push(&v.name, &v.ty, v.r);
+      }
+      let body = self.gen(ty, &cx2, sub_d, want);
+      r = Some(r.map(|x| hull(x, body.r)).unwrap_or(body.r));
+      arms.push(format!("{} -> {},", alts.join(" | "), body.s));
+    }
+    if wildcard {
+      self.feat("wildcard-arm");
+      let body = self.gen(ty, cx, sub_d, want);
+      r = Some(r.map(|x| hull(x, body.r)).unwrap_or(body.r));
+      arms.push(format!("_ -> {},", body.s));
+    }
+    self.feat("match");
+    Some(opx(format!("match {} {{\n{}\n}}", scrut.s, arms.join("\n")), r.unwrap()))
+  }
+
+  fn p_iflet(&mut self, ty: &Ty, cx: &Ctx, d: u32, want: R) -> Option<E> {
+    let (scrut, sty) = self.pick_scrutinee(cx, d)?;
+    let pd = 1 + self.rng.below(2) as u32;
+    let pats = self.cover(&sty, pd, cx, scrut.r);
+    if pats.len() < 2 {
+      return None;
+    }
+    let p = pats[self.rng.below(pats.len())].clone();
+    let mut hs = vec![];
+    p.holes(&mut hs);
+    let (names, vars) = self.bind_holes(&hs, false);
+    if p.nested(0) {
+      self.feat("nested-pattern");
+    }
+    let ptxt = Self::render_pat(&p, &names, &mut 0, true);
+    let mut cx2 = cx.clone();
+    for v in vars {
+      cx2.push(&v.name, &v.ty, v.r);
+    }
+    let a = self.gen(ty, &cx2, d - 1, want);
+    let b = self.gen(ty, cx, d - 1, want);
+    self.feat("if-let");
+    Some(opx(format!("if let {ptxt} = {} {} else {}", scrut.s, braced(&a), braced(&b)), hull(a.r, b.r)))
+  }
+
+  fn ty_visible(&self, ty: &Ty, module: usize) -> bool {
+    match ty {
+      Ty::C(n, a) => self.class(n).map(|c| c.module == STD || c.module < module || (c.module == module)).unwrap_or(false) && a.iter().all(|t| self.ty_visible(t, module)),
+      Ty::F(p, r) => p.iter().all(|t| self.ty_visible(t, module)) && self.ty_visible(r, module),
+      Ty::V(t) => self.ty_visible(t, module),
+      _ => true,
+    }
+  }
+  /// the pool types usable in module `module`
+  fn vpool(&self, module: usize) -> Vec<Ty> {
+    self.pool.iter().filter(|t| self.ty_visible(t, module)).cloned().collect()
+  }
+  fn pick_ty(&mut self, module: usize) -> Ty {
+    let n = self.rng.below(10);
+    let n = if self.prof == Profile::Enums && n < 5 && self.rng.chance(1, 2) { 9 } else { n };
+    let n = if self.prof == Profile::Strings && n >= 5 && self.rng.chance(1, 2) { 4 } else { n };
+    match n {
+      0..=2 => Ty::Int,
+      3 => Ty::Bool,
+      4 => Ty::Str,
+      _ => {
+        let pool = self.vpool(module);
+        if pool.is_empty() {
+          Ty::Int
+        } else {
+          pool[self.rng.below(pool.len())].clone()
+        }
+      }
+    }
+  }
+
+  /// `let` statements: returns the statement lines and extends the context
+  fn gen_let(&mut self, cx: &mut Ctx, d: u32) -> Vec<String> {
+    let choice = self.rng.below(10);
+    // tuple destructuring
+    if choice == 0 || choice == 1 {
+      let (ta, tb) = (self.pick_ty(cx.module), self.pick_ty(cx.module));
+      if !matches!(ta, Ty::V(_)) && !matches!(tb, Ty::V(_)) {
+        let pt = Ty::pair(ta.clone(), tb.clone());
+        let rhs = match self.p_var(&pt, cx, ANY) {
+          Some(v) if self.rng.chance(1, 2) => v,
+          _ => {
+            let a = self.gen(&ta, cx, d, self.wide(&ta));
+            let b = self.gen(&tb, cx, d, self.wide(&tb));
+            let (ar, br) = (a.r, b.r);
+            let e = atom(format!("({}, {})", a.s, b.s), ANY);
+            let (na, nb) = (self.fresh("t"), self.fresh("t"));
+            let wild = self.rng.chance(1, 6);
+            self.feat("let-tuple");
+            let line = format!("let ({na}, {}) = {};", if wild { "_".to_string() } else { nb.clone() }, e.s);
+            cx.push(&na, &ta, ar);
+            if !wild {
+              cx.push(&nb, &tb, br);
+            }
+            return vec![line];
+          }
+        };
+        let (na, nb) = (self.fresh("t"), self.fresh("t"));
+        self.feat("let-tuple");
+        let line = format!("let ({na}, {nb}) = {};", rhs.s);
+        cx.push(&na, &ta, self.dflt(&ta));
+        cx.push(&nb, &tb, self.dflt(&tb));
+        return vec![line];
+      }
+    }
+    // struct destructuring
+    if choice == 2 || choice == 3 {
+      let structs: Vec<Ty> = self.vpool(cx.module).into_iter().filter(|t| self.fields_accessible(t, cx) && !matches!(t, Ty::C(n, _) if n == "Pair")).collect();
+      if !structs.is_empty() {
+        let st = structs[self.rng.below(structs.len())].clone();
+        let rhs = match self.p_var(&st, cx, ANY) {
+          Some(v) if self.rng.chance(2, 3) => v,
+          _ => self.gen(&st, cx, d, ANY),
+        };
+        let fs = self.fields_of(&st).unwrap();
+        let mut parts = vec![];
+        for f in &fs {
+          match self.rng.below(4) {
+            0 => parts.push(format!("{} as _", f.name)),
+            1 if cx.lookup(&f.name).is_none() => {
+              parts.push(f.name.clone());
+              cx.push(&f.name, &f.ty, f.r);
+            }
+            _ => {
+              let n = self.fresh("g");
+              parts.push(format!("{} as {n}", f.name));
+              cx.push(&n, &f.ty, f.r);
+            }
+          }
+        }
+        self.feat("let-struct");
+        return vec![format!("let {{ {} }} = {};", parts.join(", "), rhs.s)];
+      }
+    }
+    // a trace print (observable evaluation order)
+    if choice == 4 && self.rng.chance(1, 2) && cx.mult <= 50 && !cx.pure {
+      self.marker += 1;
+      self.impure = true;
+      self.feat("trace-print");
+      return vec![format!("Process.println(\"t{}\");", self.marker)];
+    }
+    let ty = self.pick_ty(cx.module);
+    let e = self.gen(&ty, cx, d, self.wide(&ty));
+    let n = self.fresh("v");
+    let annot = if self.rng.chance(1, 6) && !matches!(ty, Ty::F(..)) { format!(": {}", ty.txt()) } else { String::new() };
+    let annot = if matches!(ty, Ty::F(..)) { format!(": {}", ty.txt()) } else { annot };
+    let line = format!("let {n}{annot} = {};", e.s);
+    cx.push(&n, &ty, if self.sized(&ty) { e.r } else { ANY });
+    vec![line]
+  }
+
+  fn p_block(&mut self, ty: &Ty, cx: &Ctx, d: u32, want: R) -> Option<E> {
+    let mut cx2 = cx.clone();
+    let n = 1 + self.rng.below(3);
+    let mut lines = vec![];
+    for _ in 0..n {
+      lines.extend(self.gen_let(&mut cx2, d - 1));
+    }
+    let fin = self.gen(ty, &cx2, d - 1, want);
+    self.feat("block");
+    Some(E { s: format!("{{\n{}\n{}\n}}", lines.join("\n"), fin.s), r: fin.r, k: K::Block })
+  }
+
+  /// lambda text for explicit parameter sizes
+  fn lambda_with(&mut self, params: &[(Ty, R)], ret: &Ty, want: R, cx: &Ctx, d: u32, annotate: bool, mult: u64) -> (String, R) {
+    let mut cx2 = cx.clone();
+    cx2.ld += 1;
+    cx2.mult = cx.mult.saturating_mul(mult);
+    let mut ps = vec![];
+    for (t, r) in params {
+      let n = self.fresh("x");
+      cx2.push(&n, t, *r);
+      ps.push(if annotate { format!("{n}: {}", t.txt()) } else { n });
+    }
+    let body = self.gen(ret, &cx2, d, want);
+    self.feat("lambda");
+    (format!("({}) -> {}", ps.join(", "), body.s), body.r)
+  }
+
+  fn fn_conv(&self, t: &Ty) -> R {
+    if *t == Ty::Int {
+      FNP
+    } else {
+      self.dflt(t)
+    }
+  }
+
+  fn p_lambda(&mut self, ty: &Ty, cx: &Ctx, d: u32) -> Option<E> {
+    if let Ty::F(ps, ret) = ty {
+      let params: Vec<(Ty, R)> = ps.iter().map(|t| (t.clone(), self.fn_conv(t))).collect();
+      let (s, _) = self.lambda_with(&params, ret, self.dflt(ret), cx, d - 1, true, 4);
+      return Some(opx(s, ANY));
+    }
+    None
+  }
+
+  fn p_fnref(&mut self, ty: &Ty, cx: &Ctx) -> Option<E> {
+    if let Ty::F(ps, ret) = ty {
+      let mut cands = vec![];
+      for (i, s) in self.sigs.iter().enumerate() {
+        if s.noref || !matches!(s.kind, SK::Plain) || s.ret != **ret || s.params.len() != ps.len() || !self.sig_visible(s, cx) {
+          continue;
+        }
+        if s.cost.saturating_mul(cx.mult).saturating_mul(8) > CALLCAP {
+          continue;
+        }
+        if !s.params.iter().zip(ps.iter()).all(|((_, t, r), pt)| t == pt && (!self.sized(t) || self.fits(t, self.fn_conv(t), *r))) {
+          continue;
+        }
+        if !self.fits(ret, s.rr, self.dflt(ret)) {
+          continue;
+        }
+        cands.push(i);
+      }
+      if cands.is_empty() {
+        return None;
+      }
+      let i = cands[self.rng.below(cands.len())];
+      let s = self.sigs[i].clone();
+      if !s.pure {
+        self.impure = true;
+      }
+      self.sigs[i].used += 1;
+      self.spend(s.cost.saturating_mul(cx.mult).saturating_mul(8));
+      self.curlevel = self.curlevel.max(s.level + 1);
+      return match &s.recv {
+        None => {
+          self.feat("function-reference");
+          Some(atom(format!("{}.{}", s.cls, s.name), ANY))
+        }
+        Some(rt) => {
+          // a reference to a method of a generic class whose type mentions T crashes the compiler (region genmethodref)
+          if matches!(rt, Ty::C(_, a) if !a.is_empty()) && !self.allowed("genmethodref") {
+            return None;
+          }
+          let recv = match self.p_var(rt, cx, self.dflt(rt)) {
+            Some(v) => v.s,
+            None => {
+              let rcx = self.recv_cx(cx);
+              let e = self.gen(rt, &rcx, 1, self.dflt(rt));
+              format!("({})", e.s)
+            }
+          };
+          self.feat("method-reference");
+          Some(atom(format!("{recv}.{}", s.name), ANY))
+        }
+      };
+    }
+    None
+  }
+
+  /// call of a function-typed variable in scope
+  fn p_fncall(&mut self, ty: &Ty, cx: &Ctx, d: u32, want: R) -> Option<E> {
+    let cands: Vec<(String, Vec<Ty>, u32)> = cx
+      .visible()
+      .into_iter()
+      .filter_map(|v| match &v.ty {
+        Ty::F(ps, r) if **r == *ty => Some((v.name.clone(), ps.clone(), v.ld)),
+        _ => None,
+      })
+      .collect();
+    if cands.is_empty() || cx.mult > 60 {
+      return None;
+    }
+    let (n, ps, ld) = cands[self.rng.below(cands.len())].clone();
+    if !self.fits(ty, self.dflt(ty), want) {
+      return None;
+    }
+    let args: Vec<String> = ps.iter().map(|t| self.gen(t, cx, d - 1, self.fn_conv(t)).s).collect();
+    if cx.ld > ld {
+      self.feat("lambda-capture");
+    }
+    self.feat("closure-call");
+    self.spend(40 * cx.mult);
+    Some(atom(format!("{n}({})", args.join(", ")), self.dflt(ty)))
+  }
+
+  /// a lambda called immediately or after being bound
+  fn p_lamcall(&mut self, ty: &Ty, cx: &Ctx, d: u32, want: R) -> Option<E> {
+    if matches!(ty, Ty::F(..)) {
+      return None;
+    }
+    let np = 1 + self.rng.below(2);
+    let mut params = vec![];
+    let mut args = vec![];
+    for _ in 0..np {
+      let t = if self.rng.chance(2, 3) { Ty::Int } else { self.pick_ty(cx.module) };
+      if matches!(t, Ty::F(..)) {
+        return None;
+      }
+      let a = self.gen(&t, cx, d - 1, self.wide(&t));
+      params.push((t.clone(), if self.sized(&t) { a.r } else { ANY }));
+      args.push(a.s);
+    }
+    let (lam, r) = self.lambda_with(&params, ty, want, cx, d - 1, true, 1);
+    if self.rng.chance(1, 2) {
+      self.feat("lambda-immediate-call");
+      Some(atom(format!("(({lam}))({})", args.join(", ")), r))
+    } else {
+      let f = self.fresh("f");
+      self.feat("lambda-deferred-call");
+      Some(E { s: format!("{{\nlet {f} = {lam};\n{f}({})\n}}", args.join(", ")), r, k: K::Block })
+    }
+  }
+
+  // ------------------------------------------------------------------ int productions
+  fn p_arith(&mut self, cx: &Ctx, d: u32, want: R) -> Option<E> {
+    let free = self.boundary && want == FULL;
+    match self.rng.below(7) {
+      0..=2 => {
+        let (wa, wb) = if free {
+          (FULL, FULL)
+        } else if want.0 <= 0 && want.1 >= 0 {
+          let h = (want.0 / 2, want.1 / 2);
+          (h, h)
+        } else {
+          // translate: a in a sub-interval containing 0 is impossible; use literal offset
+          let mid = (want.0 + want.1) / 2;
+          let half = (want.1 - want.0) / 2;
+          let a = self.gen_int(cx, d - 1, (-(half / 2), half / 2));
+          return Some(opx(format!("{} + {}", par(&a), lit(mid)), radd(a.r, (mid, mid))));
+        };
+        let a = self.gen_int(cx, d - 1, wa);
+        let b = self.gen_int(cx, d - 1, wb);
+        Some(opx(format!("{} + {}", par(&a), par(&b)), radd(a.r, b.r)))
+      }
+      3 | 4 => {
+        let (wa, wb) = if free {
+          (FULL, FULL)
+        } else if want.0 <= 0 && want.1 >= 0 {
+          ((want.0 / 2, want.1 / 2), (-(want.1 / 2), -(want.0 / 2)))
+        } else {
+          return None;
+        };
+        let a = self.gen_int(cx, d - 1, wa);
+        let b = self.gen_int(cx, d - 1, wb);
+        Some(opx(format!("{} - {}", par(&a), par(&b)), rminus(a.r, b.r)))
+      }
+      _ => {
+        let (wa, wb) = if free {
+          (FULL, FULL)
+        } else {
+          let m = (-want.0).min(want.1);
+          if m < 4 {
+            return None;
+          }
+          let s = isqrt(m);
+          // asymmetric split: a small factor and a larger one
+          if self.rng.chance(1, 2) && s > 12 {
+            let k = 2 + self.rng.below(8) as i64;
+            ((-k, k), (-(m / k), m / k))
+          } else {
+            ((-s, s), (-s, s))
+          }
+        };
+        let a = self.gen_int(cx, d - 1, wa);
+        let b = self.gen_int(cx, d - 1, wb);
+        Some(opx(format!("{} * {}", par(&a), par(&b)), rmul(a.r, b.r)))
+      }
+    }
+  }
+
+  fn nonzero_lit(&mut self, maxabs: i64, allow_neg: bool) -> i64 {
+    let v = 2 + self.rng.below((maxabs - 1) as usize) as i64;
+    if allow_neg && self.rng.chance(1, 3) {
+      -v
+    } else {
+      v
+    }
+  }
+
+  fn p_mod(&mut self, cx: &Ctx, d: u32, want: R) -> Option<E> {
+    // variable modulus of known non-zero sign, or guarded
+    let dvs: Vec<(String, R)> = cx.visible().into_iter().filter(|v| v.ty == Ty::Int && v.r.1 - v.r.0 <= 2000 && v.r != (0, 0) && (v.r.0 > IMIN)).map(|v| (v.name.clone(), v.r)).collect();
+    let w = self.wide(&Ty::Int);
+    if !dvs.is_empty() && self.rng.chance(1, 3) {
+      let (n, r) = dvs[self.rng.below(dvs.len())].clone();
+      let a = self.gen_int(cx, d - 1, w);
+      let m = r.0.abs().max(r.1.abs());
+      let res = rmodlit(a.r, m.max(2));
+      let has_zero = r.0 <= 0 && r.1 >= 0;
+      self.feat("mod");
+      if self.boundary && r.0 <= -1 && r.1 >= -1 && a.r.0 == IMIN {
+        return None;
+      }
+      if has_zero {
+        let alt = self.gen_int(cx, 0, want);
+        self.feat("guarded-divisor");
+        return Some(opx(format!("if {n} != 0 {{ {} % {n} }} else {{ {} }}", par(&a), alt.s), hull(res, alt.r)));
+      }
+      return Some(opx(format!("{} % {n}", par(&a)), res));
+    }
+    let dl = self.nonzero_lit(17, true);
+    let a = self.gen_int(cx, d - 1, w);
+    self.feat("mod");
+    if a.r.0 < 0 {
+      self.feat("mod-negative-dividend");
+    }
+    if dl < 0 {
+      self.feat("mod-negative-divisor");
+    }
+    Some(opx(format!("{} % {}", par(&a), lit(dl)), rmodlit(a.r, dl)))
+  }
+
+  fn p_div(&mut self, cx: &Ctx, d: u32, want: R) -> Option<E> {
+    let w = self.wide(&Ty::Int);
+    let negdiv = self.allowed("negdiv");
+    let mode = self.rng.below(10);
+    // guarded / sign-known variable divisor
+    if mode < 3 {
+      let dvs: Vec<(String, R)> = cx
+        .visible()
+        .into_iter()
+        .filter(|v| v.ty == Ty::Int && (v.r.0 >= 0 || v.r.1 <= 0) && v.r != (0, 0) && v.r.0 > IMIN)
+        .map(|v| (v.name.clone(), v.r))
+        .collect();
+      if dvs.is_empty() {
+        return None;
+      }
+      let (n, r) = dvs[self.rng.below(dvs.len())].clone();
+      let pos = r.0 >= 0;
+      let aw = if pos { (0, want.1.min(w.1).max(0)) } else { ((-(want.1.min(w.1))).min(0), 0) };
+      if want.0 > 0 {
+        return None;
+      }
+      let a = self.gen_int(cx, d - 1, aw);
+      let res = (0, a.r.0.abs().max(a.r.1.abs()));
+      self.feat("div");
+      if !pos {
+        self.feat("div-neg-neg");
+      }
+      if r.0 <= 0 && r.1 >= 0 {
+        let alt = self.gen_int(cx, 0, want);
+        self.feat("guarded-divisor");
+        return Some(opx(format!("if {n} != 0 {{ {} / {n} }} else {{ {} }}", par(&a), alt.s), hull(res, alt.r)));
+      }
+      return Some(opx(format!("{} / {n}", par(&a)), res));
+    }
+    let dl = self.nonzero_lit(9, true);
+    self.feat("div");
+    if mode < 5 || negdiv {
+      // exact quotient of an arbitrary dividend: (t - t % d) / d
+      let a = self.gen_int(cx, d - 1, w);
+      if negdiv {
+        self.feat("div-unrestricted");
+        return Some(opx(format!("{} / {}", par(&a), lit(dl)), rdivlit(a.r, dl)));
+      }
+      let t = self.fresh("t");
+      self.feat("div-exact-negative");
+      let res = rdivlit(a.r, dl);
+      return Some(E { s: format!("{{\nlet {t} = {};\n({t} - ({t} % {})) / {}\n}}", a.s, lit(dl), lit(dl)), r: res, k: K::Block });
+    }
+    // same-sign operands
+    if want.1 < 0 {
+      return None;
+    }
+    let lim = want.1.min(w.1 / dl.abs());
+    let aw = if dl > 0 { (0, (lim * dl + dl - 1).min(w.1)) } else { ((lim * dl).max(w.0), 0) };
+    let a = self.gen_int(cx, d - 1, aw);
+    if dl < 0 {
+      self.feat("div-neg-neg");
+    }
+    Some(opx(format!("{} / {}", par(&a), lit(dl)), rdivlit(a.r, dl)))
+  }
+
+  fn p_toint(&mut self, cx: &Ctx, d: u32, want: R) -> Option<E> {
+    self.feat("str-toint");
+    if self.rng.chance(1, 2) {
+      let lo = want.0.max(-999_999_999);
+      let hi = want.1.min(999_999_999);
+      if lo > hi {
+        return None;
+      }
+      let span = (hi - lo).min(if self.rng.chance(1, 4) { 999_999_999 } else { 500 });
+      let base = if lo <= 0 && hi >= 0 { (-(span / 2)).max(lo) } else { lo };
+      let v = base + self.rng.below((span.min(hi - base) + 1) as usize) as i64;
+      return Some(atom(format!("\"{v}\".toInt()"), (v, v)));
+    }
+    let w = (want.0.max(-999_999_999), want.1.min(999_999_999));
+    if w.0 > w.1 {
+      return None;
+    }
+    let a = self.gen_int(cx, d - 1, w);
+    self.feat("str-fromint");
+    Some(atom(format!("Str.fromInt({}).toInt()", a.s), a.r))
+  }
+
+  fn p_len(&mut self, cx: &Ctx, _d: u32, want: R) -> Option<E> {
+    let cands: Vec<(String, R, bool)> = cx
+      .visible()
+      .into_iter()
+      .filter_map(|v| match &v.ty {
+        t if Self::is_list(t) => Some((v.name.clone(), (0, v.r.1), true)),
+        Ty::V(_) => Some((v.name.clone(), (0, VLEN), false)),
+        _ => None,
+      })
+      .collect();
+    if cands.is_empty() {
+      return None;
+    }
+    let (n, r, is_list) = cands[self.rng.below(cands.len())].clone();
+    if !rsub(r, want) {
+      return None;
+    }
+    self.feat(if is_list { "list-ops" } else { "vec-ops" });
+    self.spend(if is_list { 60 * cx.mult } else { 2 });
+    Some(atom(format!("{n}.length()"), r))
+  }
+
+  fn list_of(&mut self, elem: &Ty, cx: &Ctx, d: u32) -> E {
+    let lt = Ty::list(elem.clone());
+    if let Some(v) = self.p_var(&lt, cx, LLEN) {
+      if self.rng.chance(2, 3) {
+        return v;
+      }
+    }
+    let rcx = self.recv_cx(cx);
+    self.gen(&lt, &rcx, d, (0, 8))
+  }
+
+  fn p_fold(&mut self, cx: &Ctx, d: u32, want: R) -> Option<E> {
+    let elem = if self.rng.chance(3, 4) { Ty::Int } else { self.pick_ty(cx.module) };
+    if matches!(elem, Ty::V(_) | Ty::F(..)) || cx.mult > 60 {
+      return None;
+    }
+    let l = self.list_of(&elem, cx, d - 1);
+    let n = l.r.1.max(1);
+    let m = (-want.0).min(want.1);
+    if m < 2 * n {
+      return None;
+    }
+    let per = (m / 2 / n).min(5000);
+    let init = self.gen_int(cx, d - 1, (-(m / 2), m / 2));
+    let mut cx2 = cx.clone();
+    cx2.ld += 1;
+    cx2.mult = cx.mult.saturating_mul(12);
+    let (acc, x) = (self.fresh("acc"), self.fresh("x"));
+    cx2.push(&x, &elem, self.dflt(&elem));
+    let e = self.gen_int(&cx2, d - 1, (-per, per));
+    let total = radd(init.r, (e.r.0.min(0) * n, e.r.1.max(0) * n));
+    self.feat("list-ops");
+    self.feat("list-fold");
+    self.feat("lambda");
+    self.spend(100 * cx.mult);
+    let right = self.rng.chance(1, 4);
+    if right {
+      Some(atom(format!("{}.foldRight(({x}, {acc}) -> {} + {acc}, {})", par(&l), par(&e), init.s), total))
+    } else {
+      Some(atom(format!("{}.fold(({acc}, {x}) -> {acc} + {}, {})", par(&l), par(&e), init.s), total))
+    }
+  }
+
+  fn p_valuemap(&mut self, cx: &Ctx, d: u32, want: R) -> Option<E> {
+
+    let elem = if self.rng.chance(2, 3) { Ty::Int } else { self.pick_ty(cx.module) };
+    if matches!(elem, Ty::V(_) | Ty::F(..)) {
+      return None;
+    }
+    let ot = Ty::option(elem.clone());
+    let o = match self.p_var(&ot, cx, ANY) {
+      Some(v) => v,
+      None => {
+        let rcx = self.recv_cx(cx);
+        self.gen(&ot, &rcx, d - 1, ANY)
+      }
+    };
+    let dv = self.gen_int(cx, d - 1, want);
+    let (lam, r) = self.lambda_with(&[(elem.clone(), self.dflt(&elem))], &Ty::Int, want, cx, d - 1, false, 1);
+    self.feat("option-ops");
+    Some(atom(format!("{}.valueMap({}, {lam})", par(&o), dv.s), hull(dv.r, r)))
+  }
+
+  fn p_listpred(&mut self, cx: &Ctx, d: u32) -> Option<E> {
+    let elem = if self.rng.chance(3, 4) { Ty::Int } else { Ty::Str };
+    if cx.mult > 60 {
+      return None;
+    }
+    let l = self.list_of(&elem, cx, d - 1);
+    self.feat("list-ops");
+    self.spend(100 * cx.mult);
+    match self.rng.below(4) {
+      0 => Some(atom(format!("{}.isEmpty()", par(&l)), ANY)),
+      1 => {
+        let (lam, _) = self.lambda_with(&[(elem.clone(), self.dflt(&elem))], &Ty::Bool, ANY, cx, d - 1, false, 12);
+        Some(atom(format!("{}.exists({lam})", par(&l)), ANY))
+      }
+      2 => {
+        let (lam, _) = self.lambda_with(&[(elem.clone(), self.dflt(&elem))], &Ty::Bool, ANY, cx, d - 1, false, 12);
+        Some(atom(format!("{}.forAll({lam})", par(&l)), ANY))
+      }
+      _ => {
+        let x = self.gen(&elem, cx, d - 1, self.dflt(&elem));
+        Some(atom(format!("{}.contains({}, (ca, cb) -> ca == cb)", par(&l), x.s), ANY))
+      }
+    }
+  }
+
+  // ------------------------------------------------------------------ Str productions
+  fn show_len(&self, ty: &Ty, depth: u32) -> i64 {
+    if depth > 4 {
+      return 100000;
+    }
+    match ty {
+      Ty::Int => 11,
+      Ty::Bool => 1,
+      Ty::Str => SLEN.1,
+      Ty::Unit => 4,
+      Ty::F(..) | Ty::V(_) | Ty::T(_) => 100000,
+      Ty::C(n, a) => {
+        if n == "List" || self.is_rec(ty) {
+          return 100000;
+        }
+        if n == "Option" {
+          return 6 + self.show_len(&a[0], depth + 1);
+        }
+        if let Some(fs) = self.fields_of(ty) {
+          return n.len() as i64 + 2 + fs.iter().map(|f| 1 + self.show_len(&f.ty, depth + 1)).sum::<i64>();
+        }
+        if let Some(vs) = self.variants_of(ty) {
+          return vs.iter().map(|v| v.name.len() as i64 + 2 + v.args.iter().map(|x| 1 + self.show_len(&x.0, depth + 1)).sum::<i64>()).max().unwrap_or(0);
+        }
+        100000
+      }
+    }
+  }
+
+  fn p_showof(&mut self, cx: &Ctx, want: R) -> Option<E> {
+    let cands: Vec<(String, Ty)> = cx.visible().into_iter().filter(|v| matches!(v.ty, Ty::C(..)) && self.show_len(&v.ty, 0) <= want.1).map(|v| (v.name.clone(), v.ty.clone())).collect();
+    if cands.is_empty() || cx.mult > 12 {
+      return None;
+    }
+    let (n, t) = cands[self.rng.below(cands.len())].clone();
+    let s = self.show_expr(&t, &n, 0);
+    self.spend(50 * cx.mult);
+    self.curlevel = self.curlevel.max(3);
+    Some(atom(s, (0, self.show_len(&t, 0))))
+  }
+
+  /// a Str-typed expression rendering `e` (an atomic expression of type `ty`)
+  fn show_expr(&mut self, ty: &Ty, e: &str, depth: u32) -> String {
+    let x = format!("s{depth}");
+    match ty {
+      Ty::Int => format!("Str.fromInt({e})"),
+      Ty::Bool => format!("ShowStd.showBool({e})"),
+      Ty::Str => e.to_string(),
+      Ty::Unit => "\"unit\"".into(),
+      Ty::T(_) => "\"?\"".into(),
+      Ty::F(ps, r) => {
+        // apply to sample arguments
+        let cx = Ctx { vars: vec![], this: None, cls: String::new(), module: 0, maxlevel: 0, mult: 1, ld: 0, banned: vec![], pure: true };
+        let args: Vec<String> = ps.iter().map(|t| self.minimal(t, &cx, self.fn_conv(t)).s).collect();
+        let call = format!("{e}({})", args.join(", "));
+        if matches!(**r, Ty::F(..)) {
+          return "\"<fn>\"".into();
+        }
+        let t = self.fresh("w");
+        let inner = self.show_expr(r, &t, depth + 1);
+        format!("{{\nlet {t} = {call};\n{inner}\n}}")
+      }
+      Ty::V(t) => {
+        let inner = self.show_expr(t, &x, depth + 1);
+        format!("ShowStd.showVec({e}, ({x}) -> {inner}, 0, \"[\")")
+      }
+      Ty::C(n, a) => {
+        if n == "List" {
+          let inner = self.show_expr(&a[0], &x, depth + 1);
+          return format!("ShowStd.showList({e}, ({x}) -> {inner})");
+        }
+        if n == "Option" {
+          let inner = self.show_expr(&a[0], &x, depth + 1);
+          return format!("ShowStd.showOpt({e}, ({x}) -> {inner})");
+        }
+        if n == "Pair" {
+          let y = format!("r{depth}");
+          let i0 = self.show_expr(&a[0], &x, depth + 1);
+          let i1 = self.show_expr(&a[1], &y, depth + 1);
+          return format!("ShowStd.showPair({e}, ({x}) -> {i0}, ({y}) -> {i1})");
+        }
+        if a.is_empty() {
+          format!("{e}.show()")
+        } else {
+          let fs: Vec<String> = a.iter().map(|t| format!("({x}) -> {}", self.show_expr(t, &x, depth + 1))).collect();
+          format!("{e}.show({})", fs.join(", "))
+        }
+      }
+    }
+  }
+
+  // ------------------------------------------------------------------ class-typed productions
+  fn p_ctor(&mut self, ty: &Ty, cx: &Ctx, d: u32, want: R) -> Option<E> {
+    let Ty::C(n, targs) = ty else { return None };
+    if n == "List" {
+      return self.p_listbuild(ty, cx, d, want);
+    }
+    if let Some(fs) = self.fields_of(ty) {
+      let mut args = vec![];
+      for f in &fs {
+        args.push(self.gen(&f.ty, cx, d.saturating_sub(1), f.r).s);
+      }
+      self.feat("struct-init");
+      if n == "Pair" {
+        if self.rng.chance(1, 2) {
+          self.feat("tuple-expr");
+          return Some(atom(format!("({})", args.join(", ")), ANY));
+        }
+        return Some(atom(format!("Pair.init({})", args.join(", ")), ANY));
+      }
+      return Some(atom(format!("{n}.init({})", args.join(", ")), ANY));
+    }
+    let vs = self.variants_of(ty)?;
+    let rec = self.is_rec(ty);
+    // candidate variants: respect the node budget and the depth
+    let mut cands: Vec<usize> = vec![];
+    for (i, v) in vs.iter().enumerate() {
+      let nrec = v.args.iter().filter(|a| self.is_rec(&a.0)).count() as i64;
+      let rk = v.args.iter().map(|a| self.rank(&a.0, &mut vec![ty.clone()])).max().unwrap_or(0);
+      if rk >= 1000 {
+        continue;
+      }
+      if rec && nrec > 0 && (d == 0 || (want.1 - 1) / nrec < 1) {
+        continue;
+      }
+      if d == 0 && rk > 1 {
+        continue;
+      }
+      cands.push(i);
+    }
+    if cands.is_empty() {
+      return Some(self.minimal(ty, cx, want));
+    }
+    // prefer payload variants when depth allows
+    let heavy: Vec<usize> = cands.iter().cloned().filter(|i| !vs[*i].args.is_empty()).collect();
+    let i = if d > 0 && !heavy.is_empty() && self.rng.chance(3, 4) { heavy[self.rng.below(heavy.len())] } else { cands[self.rng.below(cands.len())] };
+    let v = &vs[i];
+    let nrec = v.args.iter().filter(|a| self.is_rec(&a.0)).count() as i64;
+    let mut nodes = 1;
+    let mut args = vec![];
+    for (t, r) in &v.args {
+      let w = if self.is_rec(t) { (0, ((want.1 - 1) / nrec.max(1)).min(NODES.1)) } else { *r };
+      let e = self.gen(t, cx, d.saturating_sub(1), w);
+      if self.is_rec(t) {
+        nodes += e.r.1.max(1);
+      }
+      args.push(e.s);
+    }
+    self.feat("enum-init");
+    let ta = if targs.is_empty() { String::new() } else { Self::targs(ty) };
+    Some(atom(format!("{n}.{}{ta}({})", v.name, args.join(", ")), if rec { (0, nodes) } else { ANY }))
+  }
+
+  /// a constructor-only value nested as deeply as `d` allows (payload variants preferred)
+  fn deep_value(&mut self, ty: &Ty, cx: &Ctx, d: u32, want: R) -> E {
+    let Ty::C(n, _) = ty else { return self.gen(ty, cx, 1, want) };
+    if n == "List" || d == 0 {
+      return self.gen(ty, cx, d.min(1), want);
+    }
+    if let Some(fs) = self.fields_of(ty) {
+      let args: Vec<String> = fs.iter().map(|f| self.deep_value(&f.ty, cx, d - 1, f.r).s).collect();
+      self.feat("struct-init");
+      return atom(if n == "Pair" { format!("({})", args.join(", ")) } else { format!("{n}.init({})", args.join(", ")) }, ANY);
+    }
+    let Some(vs) = self.variants_of(ty) else { return self.gen(ty, cx, 1, want) };
+    let rec = self.is_rec(ty);
+    let mut cands: Vec<(usize, u32)> = vec![];
+    for (i, v) in vs.iter().enumerate() {
+      let nrec = v.args.iter().filter(|a| self.is_rec(&a.0)).count() as i64;
+      if rec && nrec > 0 && (want.1 - 1) / nrec < 1 {
+        continue;
+      }
+      let w = if v.args.iter().any(|a| matches!(a.0, Ty::C(..))) { 6 } else if v.args.is_empty() { 1 } else { 3 };
+      cands.push((w, i as u32));
+    }
+    if cands.is_empty() {
+      return self.minimal(ty, cx, want);
+    }
+    let cw: Vec<(u32, u32)> = cands.iter().map(|(w, i)| (*w as u32, *i)).collect();
+    let i = *self.pick_weighted(&cw) as usize;
+    let v = &vs[i];
+    let nrec = v.args.iter().filter(|a| self.is_rec(&a.0)).count() as i64;
+    let mut nodes = 1;
+    let mut args = vec![];
+    for (t, r) in &v.args {
+      let w = if self.is_rec(t) { (0, ((want.1 - 1) / nrec.max(1)).min(NODES.1)) } else { *r };
+      let e = self.deep_value(t, cx, d - 1, w);
+      if self.is_rec(t) {
+        nodes += e.r.1.max(1);
+      }
+      args.push(e.s);
+    }
+    self.feat("enum-init");
+    self.feat("deep-enum-value");
+    atom(format!("{n}.{}{}({})", v.name, Self::targs(ty), args.join(", ")), if rec { (0, nodes) } else { ANY })
+  }
+
+  fn p_listbuild(&mut self, ty: &Ty, cx: &Ctx, d: u32, want: R) -> Option<E> {
+    let Ty::C(_, a) = ty else { return None };
+    let elem = &a[0];
+    let maxn = want.1.min(5);
+    if maxn < 1 {
+      return Some(atom(format!("List.nil<{}>()", elem.txt()), (0, 0)));
+    }
+    let n = 1 + self.rng.below(maxn as usize) as i64;
+    let mut s = format!("List.of({})", self.gen(elem, cx, d.saturating_sub(1), self.dflt(elem)).s);
+    for _ in 1..n {
+      s.push_str(&format!(".cons({})", self.gen(elem, cx, d.saturating_sub(1), self.dflt(elem)).s));
+    }
+    self.feat("list-ops");
+    self.spend(5 * n as u64);
+    Some(atom(s, (0, n)))
+  }
+
+  fn p_listop(&mut self, ty: &Ty, cx: &Ctx, d: u32, want: R) -> Option<E> {
+    let Ty::C(_, a) = ty else { return None };
+    let elem = a[0].clone();
+    if cx.mult > 60 {
+      return None;
+    }
+    self.feat("list-ops");
+    self.spend(150 * cx.mult);
+    let rcx = self.recv_cx(cx);
+    match self.rng.below(7) {
+      0 | 1 => {
+        // map from a list of some element type
+        let src = if self.rng.chance(1, 2) { elem.clone() } else { Ty::Int };
+        let lt = Ty::list(src.clone());
+        let l = match self.p_var(&lt, cx, want) {
+          Some(v) => v,
+          None => {
+            let rcx = self.recv_cx(cx);
+            self.gen(&lt, &rcx, d - 1, (0, want.1.min(8)))
+          }
+        };
+        let (lam, _) = self.lambda_with(&[(src.clone(), self.dflt(&src))], &elem, self.dflt(&elem), cx, d - 1, false, 12);
+        self.feat("list-map");
+        Some(atom(format!("{}.map({lam})", par(&l)), l.r))
+      }
+      2 | 3 => {
+        let l = self.gen(ty, &rcx, d - 1, want);
+        let (lam, _) = self.lambda_with(&[(elem.clone(), self.dflt(&elem))], &Ty::Bool, ANY, cx, d - 1, false, 12);
+        self.feat("list-filter");
+        Some(atom(format!("{}.filter({lam})", par(&l)), l.r))
+      }
+      4 => {
+        let l = self.gen(ty, &rcx, d - 1, want);
+        Some(atom(format!("{}.reverse()", par(&l)), l.r))
+      }
+      5 => {
+        let half = (0, want.1 / 2);
+        if half.1 < 1 {
+          return None;
+        }
+        let l1 = self.gen(ty, &rcx, d - 1, half);
+        let l2 = self.gen(ty, cx, d - 1, half);
+        Some(atom(format!("{}.append({})", par(&l1), par(&l2)), (0, l1.r.1 + l2.r.1)))
+      }
+      _ => {
+        if want.1 < 2 {
+          return None;
+        }
+        let l = self.gen(ty, &rcx, d - 1, (0, want.1 - 1));
+        let x = self.gen(&elem, cx, d - 1, self.dflt(&elem));
+        Some(atom(format!("{}.cons({})", par(&l), x.s), (0, l.r.1 + 1)))
+      }
+    }
+  }
+
+  fn p_optop(&mut self, ty: &Ty, cx: &Ctx, d: u32) -> Option<E> {
+    let Ty::C(_, a) = ty else { return None };
+    let elem = a[0].clone();
+    if cx.mult > 60 {
+      return None;
+    }
+    self.feat("option-ops");
+    let rcx = self.recv_cx(cx);
+    match self.rng.below(5) {
+      0 => {
+        let l = self.list_of(&elem, cx, d - 1);
+        self.feat("list-ops");
+        Some(atom(format!("{}.first()", par(&l)), ANY))
+      }
+      1 => {
+        let l = self.list_of(&elem, cx, d - 1);
+        let (lam, _) = self.lambda_with(&[(elem.clone(), self.dflt(&elem))], &Ty::Bool, ANY, cx, d - 1, false, 12);
+        self.feat("list-ops");
+        self.spend(100 * cx.mult);
+        Some(atom(format!("{}.find({lam})", par(&l)), ANY))
+      }
+      2 => {
+        let o = self.gen(ty, &rcx, d - 1, ANY);
+        let (lam, _) = self.lambda_with(&[(elem.clone(), self.dflt(&elem))], &elem, self.dflt(&elem), cx, d - 1, false, 1);
+        Some(atom(format!("{}.map({lam})", par(&o)), ANY))
+      }
+      3 => {
+        let o = self.gen(ty, &rcx, d - 1, ANY);
+        let (lam, _) = self.lambda_with(&[(elem.clone(), self.dflt(&elem))], &Ty::Bool, ANY, cx, d - 1, false, 1);
+        Some(atom(format!("{}.filter({lam})", par(&o)), ANY))
+      }
+      _ => {
+        let x = self.gen(&elem, cx, d - 1, self.dflt(&elem));
+        Some(atom(format!("Option.Some({})", x.s), ANY))
+      }
+    }
+  }
+
+  // ------------------------------------------------------------------ Vec scenarios
+  /// `{ let v = Vec.empty<int>(); v.push(..); ...; <int result> }` with the length tracked exactly
+  fn p_vecblock(&mut self, cx: &Ctx, d: u32, want: R) -> Option<E> {
+    if want.0 > -3000 || want.1 < 3000 {
+      return None;
+    }
+    let v = self.fresh("vec");
+    let mut lines = vec![];
+    let mut len: i64 = 0;
+    match self.rng.below(3) {
+      0 => lines.push(format!("let {v} = Vec.empty<int>();")),
+      1 => {
+        lines.push(format!("let {v} = Vec.withCapacity<int>({});", 1 + self.rng.below(20)));
+      }
+      _ => {
+        let e = self.gen_int(cx, d - 1, STORE);
+        lines.push(format!("let {v} = Vec.of<int>({});", e.s));
+        len = 1;
+      }
+    }
+    let nops = 3 + self.rng.below(5);
+    let mut cx2 = cx.clone();
+    let mut picked: Vec<String> = vec![];
+    for _ in 0..nops {
+      match self.rng.below(8) {
+        0..=3 => {
+          let e = self.gen_int(&cx2, d - 1, STORE);
+          lines.push(format!("{v}.push({});", e.s));
+          len += 1;
+        }
+        4 if len > 0 => {
+          let i = self.rng.below(len as usize);
+          let e = self.gen_int(&cx2, d - 1, STORE);
+          lines.push(format!("{v}.set({i}, {});", e.s));
+        }
+        5 if len > 0 => {
+          let t = self.fresh("pv");
+          lines.push(format!("let {t} = {v}.pop();"));
+          cx2.push(&t, &Ty::Int, STORE);
+          picked.push(t);
+          len -= 1;
+        }
+        6 if len > 0 => {
+          let t = self.fresh("gv");
+          let i = self.rng.below(len as usize);
+          lines.push(format!("let {t} = {v}.get({i});"));
+          cx2.push(&t, &Ty::Int, STORE);
+          picked.push(t);
+        }
+        7 => lines.push(format!("{v}.reserve({});", self.rng.below(40))),
+        _ => {
+          let e = self.gen_int(&cx2, d - 1, STORE);
+          lines.push(format!("{v}.push({});", e.s));
+          len += 1;
+        }
+      }
+    }
+    let mut parts: Vec<String> = vec![format!("{v}.length()")];
+    let mut r: R = (len, len);
+    if len > 0 {
+      let i = self.rng.below(len as usize);
+      parts.push(format!("{v}.get({i})"));
+      r = radd(r, STORE);
+    }
+    if let Some(p) = picked.last() {
+      parts.push(p.clone());
+      r = radd(r, STORE);
+    }
+    self.feat("vec-ops");
+    self.spend(20);
+    Some(E { s: format!("{{\n{}\n{}\n}}", lines.join("\n"), parts.join(" + ")), r, k: K::Block })
+  }
+
+  fn p_vecbuild(&mut self, ty: &Ty, cx: &Ctx, d: u32) -> Option<E> {
+    let Ty::V(t) = ty else { return None };
+    let v = self.fresh("vec");
+    let mut lines = vec![format!("let {v} = Vec.empty<{}>();", t.txt())];
+    let n = 1 + self.rng.below(4);
+    for _ in 0..n {
+      let e = self.gen(t, cx, d - 1, self.dflt(t));
+      lines.push(format!("{v}.push({});", e.s));
+    }
+    self.feat("vec-ops");
+    Some(E { s: format!("{{\n{}\n{v}\n}}", lines.join("\n")), r: ANY, k: K::Block })
+  }
+}
+
+trait Pipe: Sized {
+  fn pipe<T>(self, f: impl FnOnce(Self) -> T) -> T {
+    f(self)
+  }
+}
+impl Pipe for i64 {}
+
+// ---------------------------------------------------------------------------------------------
+// members: random functions/methods, tail-recursive loops, fuel recursion, helpers, Main
+// ---------------------------------------------------------------------------------------------
+fn negate_op(op: &str) -> &'static str {
+  match op {
+    "<" => ">=",
+    "<=" => ">",
+    ">" => "<=",
+    ">=" => "<",
+    "==" => "!=",
+    _ => "==",
+  }
+}
+fn mirror_op(op: &str) -> &'static str {
+  match op {
+    "<" => ">",
+    "<=" => ">=",
+    ">" => "<",
+    ">=" => "<=",
+    "==" => "==",
+    _ => "!=",
+  }
+}
+fn op_feat(op: &str) -> &'static str {
+  match op {
+    "<" => "loop-guard-lt",
+    "<=" => "loop-guard-le",
+    ">" => "loop-guard-gt",
+    ">=" => "loop-guard-ge",
+    "==" => "loop-guard-eq",
+    _ => "loop-guard-ne",
+  }
+}
+fn holds(op: &str, a: i64, b: i64) -> bool {
+  match op {
+    "<" => a < b,
+    "<=" => a <= b,
+    ">" => a > b,
+    ">=" => a >= b,
+    "==" => a == b,
+    _ => a != b,
+  }
+}
+/// runs `i := start; while i OP bound { i += stride }` exactly; None when it overflows 32 bits or exceeds `cap` trips
+fn simulate(start: i64, bound: i64, stride: i64, cont: &str, cap: i64) -> Option<(i64, i64, i64)> {
+  let (mut i, mut trips, mut lo, mut hi) = (start, 0, start, start);
+  while holds(cont, i, bound) {
+    i += stride;
+    if !(IMIN..=IMAX).contains(&i) {
+      return None;
+    }
+    trips += 1;
+    if trips > cap {
+      return None;
+    }
+    lo = lo.min(i);
+    hi = hi.max(i);
+  }
+  Some((trips, lo, hi))
+}
+
+impl G {
+  fn begin_fn(&mut self) {
+    self.cost = 0;
+    self.curlevel = 1;
+    self.impure = false;
+  }
+  fn end_fn(&mut self) -> (u32, u64, bool) {
+    (self.curlevel, self.cost.max(1), !self.impure)
+  }
+  fn base_ctx(&self, cls: &str, module: usize, maxlevel: u32) -> Ctx {
+    Ctx { vars: vec![], this: None, cls: cls.to_string(), module, maxlevel, mult: 1, ld: 0, banned: vec![], pure: false }
+  }
+  fn method_ctx(&self, cls: &str, module: usize, maxlevel: u32) -> Ctx {
+    let mut c = self.base_ctx(cls, module, maxlevel);
+    c.this = Some(Ty::cls(cls));
+    c
+  }
+  fn int_param_range(&mut self) -> R {
+    if self.boundary && self.rng.chance(1, 2) {
+      return FULL;
+    }
+    *self.rng.pick(&[(-1000, 1000), (0, 100), (-50, 50), (1, 9), (-9, -1), (-100, 100), (0, 9)])
+  }
+  fn push_sig(&mut self, mut s: Sig) {
+    if let Some(c) = self.class(&s.cls) {
+      if c.private {
+        s.modpriv = true;
+      }
+    }
+    self.sigs.push(s);
+  }
+  fn plain_sig(&self, cls: &str, recv: Option<Ty>, name: &str, params: Vec<(String, Ty, R)>, ret: Ty, rr: R, module: usize, level: u32, cost: u64, pure: bool) -> Sig {
+    Sig { cls: cls.into(), recv, name: name.into(), params, ret, rr, level, cost, private: false, modpriv: false, module, kind: SK::Plain, used: 0, noref: false, pure, feats: vec![] }
+  }
+
+  /// a random static function or method of class `cname`
+  fn gen_member(&mut self, cname: &str, module: usize, is_method: bool, private: bool, depth: u32) {
+    let name = self.fresh(if is_method { "m" } else { "f" });
+    let mut cx = if is_method { self.method_ctx(cname, module, 4) } else { self.base_ctx(cname, module, 4) };
+    // "function-value friendly": usable as a function / method reference of type (int, ..) -> T
+    let friendly = self.rng.chance(if self.prof == Profile::Closures { 3 } else { 1 }, 5);
+    let np = if friendly { 1 + self.rng.below(2) } else { self.rng.below(if is_method { 3 } else { 4 }) };
+    let mut params = vec![];
+    for _ in 0..np {
+      let t = if friendly { Ty::Int } else { self.pick_ty(module) };
+      let t = if matches!(t, Ty::V(_)) && self.rng.chance(1, 2) { Ty::Int } else { t };
+      let r = if friendly { *self.rng.pick(&[(-1000, 1000), (-100, 100)]) } else if t == Ty::Int { self.int_param_range() } else { self.dflt(&t) };
+      let n = self.fresh("p");
+      cx.push(&n, &t, r);
+      params.push((n, t, r));
+    }
+    // a parameter that can be pattern-matched
+    let want_enum = self.rng.chance(match self.prof { Profile::Enums => 4, Profile::Mixed => 2, _ => 1 }, 5);
+    if want_enum && !friendly && !params.iter().any(|p| self.matchable(&p.1, &cx)) {
+      let ms: Vec<Ty> = self.vpool(module).into_iter().filter(|t| self.matchable(t, &cx)).collect();
+      if !ms.is_empty() {
+        let t = ms[self.rng.below(ms.len())].clone();
+        let n = self.fresh("p");
+        let r = self.dflt(&t);
+        cx.push(&n, &t, r);
+        params.push((n, t, r));
+      }
+    }
+    if np == 0 && !is_method && params.is_empty() {
+      // nullary static functions are constant: give them at least one parameter most of the time
+      if self.rng.chance(3, 4) {
+        let r = self.int_param_range();
+        let n = self.fresh("p");
+        cx.push(&n, &Ty::Int, r);
+        params.push((n, Ty::Int, r));
+      }
+    }
+    let ret = {
+      let t = if friendly { self.rng.pick(&[Ty::Int, Ty::Int, Ty::Bool, Ty::Str]).clone() } else { self.pick_ty(module) };
+      if matches!(t, Ty::V(_)) {
+        Ty::Int
+      } else {
+        t
+      }
+    };
+    self.begin_fn();
+    let want = if friendly { self.dflt(&ret) } else { self.wide(&ret) };
+    let body = self.gen(&ret, &cx, depth, want);
+    let (level, cost, pure) = self.end_fn();
+    let plist = params.iter().map(|(n, t, _)| format!("{n}: {}", t.txt())).collect::<Vec<_>>().join(", ");
+    let kw = if is_method { "method" } else { "function" };
+    let pv = if private { "private " } else { "" };
+    let text = format!("{pv}{kw} {name}({plist}): {} = {}", ret.txt(), body.s);
+    let ci = self.cidx[cname];
+    self.classes[ci].members.push(text);
+    if private {
+      self.feat("private-member");
+    }
+    if is_method && body.s.contains("this") {
+      self.feat("method-uses-this");
+    }
+    let mut s = self.plain_sig(cname, if is_method { Some(Ty::cls(cname)) } else { None }, &name, params, ret.clone(), if self.sized(&ret) { body.r } else { ANY }, module, level, cost, pure);
+    s.private = private;
+    s.modpriv = self.classes[ci].private;
+    self.push_sig(s);
+  }
+
+  /// `method mkK(p: int): (int) -> int = (x) -> <int expression over x, p and this>`
+  fn gen_closure_method(&mut self, cname: &str, module: usize) {
+    let name = self.fresh("mk");
+    let mut cx = self.method_ctx(cname, module, 3);
+    let pn = self.fresh("p");
+    cx.push(&pn, &Ty::Int, (-50, 50));
+    self.begin_fn();
+    let mut best: Option<String> = None;
+    for _ in 0..6 {
+      let (lam, _) = self.lambda_with(&[(Ty::Int, FNP)], &Ty::Int, STORE, &cx, 2, false, 4);
+      let uses_this = mentions(&lam, "this");
+      if uses_this || best.is_none() {
+        best = Some(lam);
+      }
+      if uses_this {
+        break;
+      }
+    }
+    let (level, cost, pure) = self.end_fn();
+    let ci = self.cidx[cname];
+    self.classes[ci].members.push(format!("method {name}({pn}: int): (int) -> int = {}", best.unwrap()));
+    let mut s = self.plain_sig(cname, Some(Ty::cls(cname)), &name, vec![(pn, Ty::Int, (-50, 50))], Ty::func(vec![Ty::Int], Ty::Int), ANY, module, level, cost, pure);
+    s.feats = vec!["closure-returning-method"];
+    self.push_sig(s);
+    let f1 = Ty::func(vec![Ty::Int], Ty::Int);
+    if !self.pool.contains(&f1) {
+      self.pool.push(f1);
+    }
+  }
+
+  // ------------------------------------------------------------------ tail-recursive loops
+  fn gen_loop(&mut self, cname: &str, module: usize) {
+    let name = self.fresh("loop");
+    let loops_prof = self.prof == Profile::Loops;
+    let cont: &'static str = *self.rng.pick(&["<", "<=", ">", ">=", "!=", "=="]);
+    let positive = match cont {
+      "<" | "<=" => true,
+      ">" | ">=" => false,
+      _ => self.rng.chance(1, 2),
+    };
+    let near_limit = self.boundary && self.rng.chance(2, 3);
+    let ir: R = if near_limit {
+      if positive {
+        (IMAX - 400, IMAX)
+      } else {
+        (IMIN, IMIN + 400)
+      }
+    } else {
+      (-300, 300)
+    };
+    let s_param = self.rng.chance(if loops_prof { 3 } else { 1 }, 5);
+    let n_param = self.rng.chance(if loops_prof { 4 } else { 3 }, 5);
+    let mag = 1 + self.rng.below(5) as i64;
+    let sneg = s_param && !positive && self.rng.chance(1, 2);
+    let stride = if positive { mag } else { -mag };
+    let bform: (i64, i64) = if n_param && !near_limit {
+      match self.rng.below(6) {
+        0 => (1, 1 + self.rng.below(5) as i64),
+        1 => (1, -(1 + self.rng.below(5) as i64)),
+        2 => (2, 0),
+        _ => (1, 0),
+      }
+    } else {
+      (1, 0)
+    };
+    let bound_lit = if near_limit {
+      if positive {
+        IMAX - self.rng.below(30) as i64
+      } else {
+        IMIN + self.rng.below(30) as i64
+      }
+    } else {
+      self.rng.below(80) as i64 - 40
+    };
+    let contains_inner = !near_limit && self.rng.chance(if loops_prof { 3 } else { 1 }, 10);
+    let maxtrips: i64 = if contains_inner { 10 } else { 50 };
+
+    // parameters
+    let mut params: Vec<(String, Ty, R)> = vec![("i".into(), Ty::Int, ir)];
+    let mut cx = self.base_ctx(cname, module, 3);
+    cx.push("i", &Ty::Int, ir);
+    let mut n_idx = None;
+    let mut s_idx = None;
+    let nr: R = if near_limit { ir } else { (-200, 200) };
+    if n_param {
+      n_idx = Some(params.len());
+      params.push(("n".into(), Ty::Int, nr));
+      cx.push("n", &Ty::Int, nr);
+    }
+    let sr: R = if sneg || positive { (1, 5) } else { (-5, -1) };
+    if s_param {
+      s_idx = Some(params.len());
+      params.push(("s".into(), Ty::Int, sr));
+      cx.push("s", &Ty::Int, sr);
+    }
+    // accumulator
+    let acc_kind = match self.rng.below(if self.prof == Profile::Strings { 12 } else { 10 }) {
+      0..=3 => "sum",
+      4 => "mod",
+      5 | 10 | 11 => "str",
+      6 => "class",
+      7 => "vec",
+      8 => "unit",
+      _ => "sum",
+    };
+    let free = self.boundary;
+    let per: R = if free { FULL } else { (-7000, 7000) };
+    let per0: R = if free { FULL } else { (-2000, 2000) };
+    let (acc_ty, acc_ext, acc_int): (Ty, R, R) = match acc_kind {
+      "sum" => {
+        let init = (-1000, 1000);
+        let tot = if free { FULL } else { radd(init, (per.0 * maxtrips, per.1 * maxtrips)) };
+        (Ty::Int, if free { FULL } else { init }, tot)
+      }
+      "mod" => (Ty::Int, (-100, 100), (-9972, 9972)),
+      "str" => (Ty::Str, (0, 20), (0, 20 + 12 * maxtrips)),
+      "class" => {
+        let cs: Vec<Ty> = self.vpool(module).into_iter().filter(|t| matches!(t, Ty::C(n, _) if n != "List") && !self.is_rec(t) && self.rank(t, &mut vec![]) < 1000).collect();
+        if cs.is_empty() {
+          (Ty::Int, (-1000, 1000), radd((-1000, 1000), (per.0 * maxtrips, per.1 * maxtrips)))
+        } else {
+          let t = cs[self.rng.below(cs.len())].clone();
+          (t, ANY, ANY)
+        }
+      }
+      "vec" => (Ty::V(Box::new(Ty::Int)), ANY, ANY),
+      _ => (Ty::Unit, ANY, ANY),
+    };
+    let acc_kind = if acc_kind == "class" && acc_ty == Ty::Int { "sum" } else { acc_kind };
+    let has_acc = acc_ty != Ty::Unit;
+    if has_acc {
+      params.push(("acc".into(), acc_ty.clone(), acc_ext));
+      cx.push("acc", &acc_ty, acc_int);
+    }
+    // loop-invariant parameters
+    let ninv = self.rng.below(3);
+    let mut inv_names = vec![];
+    for k in 0..ninv {
+      let n = format!("k{k}");
+      let r = if free && self.rng.chance(1, 2) { FULL } else { (-50, 50) };
+      params.push((n.clone(), Ty::Int, r));
+      cx.push(&n, &Ty::Int, r);
+      inv_names.push(n);
+    }
+
+    self.begin_fn();
+    let mut pre: Vec<String> = vec![];
+    // a loop-invariant expression computed in every iteration
+    if !inv_names.is_empty() && self.rng.chance(2, 3) {
+      let a = inv_names[0].clone();
+      let c1 = 2 + self.rng.below(6) as i64;
+      let c2 = self.rng.below(20) as i64;
+      let ar = cx.lookup(&a).unwrap().r;
+      let (txt, r) = if inv_names.len() > 1 && self.rng.chance(1, 2) {
+        let b = inv_names[1].clone();
+        let br = cx.lookup(&b).unwrap().r;
+        (format!("({a} * {b}) + {c2}"), radd(rmul(ar, br), (c2, c2)))
+      } else {
+        (format!("({a} * {c1}) + {c2}"), radd(rmul(ar, (c1, c1)), (c2, c2)))
+      };
+      pre.push(format!("let inv = {txt};"));
+      cx.push("inv", &Ty::Int, r);
+      self.feat("loop-invariant-expr");
+    }
+    let mut bcx = cx.clone();
+    bcx.mult = maxtrips as u64;
+    let mut body: Vec<String> = vec![];
+    // a derived induction variable
+    let mut dv = false;
+    if self.rng.chance(1, 2) {
+      let c1 = *self.rng.pick(&[2i64, 3, 4, 5, -2, -3, 7]);
+      let c2 = self.rng.below(21) as i64 - 10;
+      let r = radd(rmul(ir, (c1, c1)), (c2, c2));
+      body.push(format!("let dv = (i * {}) + {};", lit(c1), lit(c2)));
+      bcx.push("dv", &Ty::Int, r);
+      dv = true;
+      self.feat("loop-derived-iv");
+    }
+    if self.rng.chance(if loops_prof { 2 } else { 1 }, 6) {
+      let what = if dv && self.rng.chance(2, 3) { "dv" } else { "i" };
+      body.push(format!("Process.println(Str.fromInt({what}));"));
+      self.impure = true;
+      self.feat("loop-print");
+    }
+    // allocation in the body
+    if self.rng.chance(if loops_prof { 2 } else { 1 }, 5) {
+      let cs: Vec<Ty> = self.vpool(module).into_iter().filter(|t| self.fields_of(t).is_some() && self.fields_accessible(t, &bcx)).collect();
+      if !cs.is_empty() {
+        let t = cs[self.rng.below(cs.len())].clone();
+        let e = self.gen(&t, &bcx, 1, ANY);
+        body.push(format!("let st = {};", e.s));
+        bcx.push("st", &t, ANY);
+        self.feat("loop-alloc-struct");
+      }
+    }
+    if self.rng.chance(if loops_prof || self.prof == Profile::Closures { 2 } else { 1 }, 6) {
+      let (lam, _) = self.lambda_with(&[(Ty::Int, FNP)], &Ty::Int, STORE, &bcx, 1, true, 2);
+      body.push(format!("let cl = {lam};"));
+      bcx.push("cl", &Ty::func(vec![Ty::Int], Ty::Int), ANY);
+      self.feat("loop-alloc-closure");
+    }
+    // accumulator update
+    let new_acc: String = match acc_kind {
+      "sum" => {
+        let e = self.gen_int(&bcx, 2, per0);
+        self.feat("loop-acc-int");
+        // make the derived induction variable / the allocated closure / struct observable
+        let mut t = format!("acc + {}", par(&e));
+        if dv && self.rng.chance(2, 3) {
+          t = format!("({t}) + dv");
+        }
+        if bcx.lookup("cl").is_some() && self.rng.chance(2, 3) {
+          t = format!("({t}) + cl(i % 100)");
+        }
+        if let Some(st) = bcx.lookup("st") {
+          if let Some(fs) = self.fields_of(&st.ty.clone()) {
+            if let Some(f) = fs.iter().find(|f| f.ty == Ty::Int && !f.private && rsub(f.r, STORE)) {
+              t = format!("({t}) + st.{}", f.name);
+            }
+          }
+        }
+        t
+      }
+      "mod" => {
+        let k = 2 + self.rng.below(4) as i64;
+        let m = *self.rng.pick(&[101i64, 1009, 9973]);
+        let e = self.gen_int(&bcx, 2, (-1000, 1000));
+        self.feat("loop-acc-mod");
+        format!("((acc * {k}) + {}) % {m}", par(&e))
+      }
+      "str" => {
+        let mut c2 = bcx.clone();
+        c2.banned.push("acc".into());
+        let e = self.gen(&Ty::Str, &c2, 2, (0, 12));
+        self.feat("loop-acc-str");
+        format!("acc :: {}", par(&e))
+      }
+      "class" => {
+        let e = self.gen(&acc_ty, &bcx, 2, self.dflt(&acc_ty));
+        self.feat("loop-acc-class");
+        e.s
+      }
+      "vec" => {
+        let e = self.gen_int(&bcx, 2, STORE);
+        body.push(format!("acc.push({});", e.s));
+        self.feat("loop-acc-vec");
+        self.feat("vec-ops");
+        "acc".into()
+      }
+      _ => String::new(),
+    };
+    // step
+    let step = match (s_idx.is_some(), sneg) {
+      (true, true) => "i - s".to_string(),
+      (true, false) => {
+        if self.rng.chance(1, 3) {
+          "s + i".into()
+        } else {
+          "i + s".into()
+        }
+      }
+      (false, _) => {
+        if stride < 0 && self.rng.chance(2, 3) {
+          format!("i - {}", -stride)
+        } else {
+          format!("i + {}", lit(stride))
+        }
+      }
+    };
+    let mut rec_args: Vec<String> = vec![step];
+    if n_idx.is_some() {
+      rec_args.push("n".into());
+    }
+    if s_idx.is_some() {
+      rec_args.push("s".into());
+    }
+    if has_acc {
+      rec_args.push(new_acc);
+    }
+    rec_args.extend(inv_names.iter().cloned());
+    body.push(format!("{cname}.{name}({})", rec_args.join(", ")));
+    // exit value
+    let (ret_ty, exit_txt, rr): (Ty, String, R) = match acc_kind {
+      "sum" | "mod" => {
+        if cx.lookup("inv").is_some() && self.rng.chance(1, 2) {
+          let ir2 = cx.lookup("inv").unwrap().r;
+          (Ty::Int, "acc + inv".into(), radd(acc_int, ir2))
+        } else {
+          (Ty::Int, "acc".into(), acc_int)
+        }
+      }
+      "str" => (Ty::Str, "acc".into(), acc_int),
+      "class" => (acc_ty.clone(), "acc".into(), ANY),
+      "vec" => (Ty::Int, "acc.length()".into(), (0, VLEN)),
+      _ => (Ty::Unit, "{  }".into(), ANY),
+    };
+    // guard
+    let btxt = if n_idx.is_some() {
+      match bform {
+        (1, 0) => "n".to_string(),
+        (1, c) if c > 0 => format!("(n + {c})"),
+        (1, c) => format!("(n - {})", -c),
+        (m, _) => format!("(n * {m})"),
+      }
+    } else {
+      lit(bound_lit)
+    };
+    let exit_first = self.rng.chance(1, 2);
+    let written = if exit_first { negate_op(cont) } else { cont };
+    let gtxt = if self.rng.chance(1, 4) { format!("{btxt} {} i", mirror_op(written)) } else { format!("i {written} {btxt}") };
+    let rec_block = format!("{{\n{}\n}}", body.join("\n"));
+    let exit_block = format!("{{ {exit_txt} }}");
+    let ife = if exit_first { format!("if {gtxt} {exit_block} else {rec_block}") } else { format!("if {gtxt} {rec_block} else {exit_block}") };
+    let fbody = if pre.is_empty() { ife } else { format!("{{\n{}\n{ife}\n}}", pre.join("\n")) };
+    let (level, cost, pure) = self.end_fn();
+    let plist = params.iter().map(|(n, t, _)| format!("{n}: {}", t.txt())).collect::<Vec<_>>().join(", ");
+    let ci = self.cidx[cname];
+    self.classes[ci].members.push(format!("function {name}({plist}): {} = {fbody}", ret_ty.txt()));
+    let spec = LoopSpec { i: 0, n: n_idx, s: s_idx, stride, bound: bound_lit, bform, sneg, cont, ir, maxtrips };
+    let mut feats = vec!["tail-loop", op_feat(cont), if positive { "loop-pos-stride" } else { "loop-neg-stride" }];
+    if s_idx.is_some() {
+      feats.push("loop-stride-param");
+    }
+    if n_idx.is_some() {
+      feats.push("loop-bound-param");
+    }
+    if near_limit {
+      feats.push("loop-near-int-limit");
+    }
+    if bform != (1, 0) {
+      feats.push("loop-guard-invariant-subexpr");
+    }
+    let s = Sig {
+      cls: cname.into(),
+      recv: None,
+      name,
+      params,
+      ret: ret_ty,
+      rr,
+      level,
+      cost: cost.saturating_mul(maxtrips as u64),
+      private: false,
+      modpriv: false,
+      module,
+      kind: SK::Loop(spec),
+      used: 0,
+      noref: true,
+      pure,
+      feats,
+    };
+    self.push_sig(s);
+  }
+
+  /// arguments for a call of a loop function: exact simulation guarantees termination within the trip cap
+  fn loop_args(&mut self, sig: &Sig, spec: &LoopSpec, cx: &Ctx, d: u32) -> Option<Vec<String>> {
+    let mut found: Option<(i64, i64, i64)> = None; // (start, n or bound, |s| or stride)
+    for _ in 0..40 {
+      let eff_stride = if let Some(si) = spec.s {
+        let r = sig.params[si].2;
+        let v = r.0 + self.rng.below((r.1 - r.0 + 1) as usize) as i64;
+        if spec.sneg {
+          -v
+        } else {
+          v
+        }
+      } else {
+        spec.stride
+      };
+      let k = match self.rng.below(8) {
+        0 => 0,
+        1 => 1,
+        2 => 2,
+        3..=5 => 3 + self.rng.below(10) as i64,
+        _ => self.rng.below((spec.maxtrips + 1) as usize) as i64,
+      }
+      .min(spec.maxtrips);
+      let jitter = if eff_stride.abs() > 1 { self.rng.below(eff_stride.unsigned_abs() as usize) as i64 } else { 0 };
+      // choose the bound (through n when it is a parameter), then the start
+      let (nval, b): (i64, i64) = if let Some(ni) = spec.n {
+        let r = sig.params[ni].2;
+        let span = (r.1 - r.0).min(120);
+        let base = if r.0 < -60 && r.1 > 60 { -60 } else { r.0 };
+        let base = if spec.ir.0 > 1000 { r.1 - span } else { base };
+        let n = base + self.rng.below((span + 1) as usize) as i64;
+        let b = n * spec.bform.0 + spec.bform.1;
+        if !(IMIN..=IMAX).contains(&b) || !(IMIN..=IMAX).contains(&(n * spec.bform.0)) {
+          continue;
+        }
+        (n, b)
+      } else {
+        (spec.bound, spec.bound)
+      };
+      let start = match spec.cont {
+        "!=" => b - k * eff_stride,
+        "==" => {
+          if self.rng.chance(2, 3) {
+            b
+          } else {
+            b - eff_stride
+          }
+        }
+        _ => b - k * eff_stride + if eff_stride > 0 { -jitter } else { jitter },
+      };
+      if start < spec.ir.0 || start > spec.ir.1 {
+        continue;
+      }
+      if let Some((_, lo, hi)) = simulate(start, b, eff_stride, spec.cont, spec.maxtrips) {
+        if lo >= spec.ir.0 && hi <= spec.ir.1 {
+          found = Some((start, nval, eff_stride));
+          break;
+        }
+      }
+    }
+    let (start, nval, eff_stride) = found?;
+    let mut args = vec![];
+    for (idx, (_, t, r)) in sig.params.iter().enumerate() {
+      if idx == spec.i {
+        args.push(self.point(start).s);
+      } else if Some(idx) == spec.n {
+        // nested use: a bound that depends on the caller's variables (ranges instead of points)
+        let e = self.range_bound(spec, start, eff_stride, nval, cx, d);
+        args.push(e);
+      } else if Some(idx) == spec.s {
+        args.push(self.point(if spec.sneg { -eff_stride } else { eff_stride }).s);
+      } else {
+        args.push(self.gen(t, cx, d.min(2), *r).s);
+      }
+    }
+    Some(args)
+  }
+
+  /// the bound argument: usually the simulated point; inside another loop (mult > 1) possibly an expression
+  /// over the caller's variables whose whole range keeps the trip count within the cap
+  fn range_bound(&mut self, spec: &LoopSpec, start: i64, stride: i64, nval: i64, cx: &Ctx, d: u32) -> String {
+    let monotone = matches!(spec.cont, "<" | "<=" | ">" | ">=");
+    if monotone && spec.bform == (1, 0) && spec.ir.0 > -100000 && spec.ir.1 < 100000 && self.rng.chance(if cx.mult > 1 { 3 } else { 1 }, 4) && d >= 1 {
+      // all bounds between start-ish and start + (maxtrips-1)*stride are fine
+      let far = start + (spec.maxtrips - 1) * stride;
+      let (lo, hi) = if stride > 0 { (spec.ir.0.max(-200), far.min(spec.ir.1 - stride.abs() - 1).min(200)) } else { (far.max(spec.ir.0 + stride.abs() + 1).max(-200), spec.ir.1.min(200)) };
+      if lo <= hi {
+        let e = self.gen_int(cx, d.min(2), (lo, hi));
+        if e.r.0 != e.r.1 {
+          self.feat("loop-bound-expression");
+          if cx.mult > 1 {
+            self.feat("loop-nested");
+          }
+        }
+        return e.s;
+      }
+    }
+    if cx.mult > 1 {
+      self.feat("loop-nested");
+    }
+    self.point(nval).s
+  }
+
+  // ------------------------------------------------------------------ fuel recursion
+  fn gen_fuel(&mut self, cname: &str, module: usize) {
+    let name = self.fresh("rec");
+    let xr: R = (-100, 100);
+    let mut cx = self.base_ctx(cname, module, 3);
+    let variant = self.rng.below(4);
+    self.begin_fn();
+    let ci = self.cidx[cname];
+    match variant {
+      0 | 1 => {
+        // linear / binary int recursion
+        let binary = variant == 1;
+        let fmax: i64 = 8;
+        cx.push("fuel", &Ty::Int, (0, fmax));
+        cx.push("x", &Ty::Int, xr);
+        let base = self.gen_int(&cx, 1, (-100, 100));
+        let mut rcx = cx.clone();
+        rcx.vars[0].r = (if binary { 2 } else { 1 }, fmax);
+        rcx.mult = if binary { 64 } else { 8 };
+        let e = self.gen_int(&rcx, 2, (-500, 500));
+        let ax = self.gen_int(&rcx, 1, xr);
+        let (text, rr) = if binary {
+          let ax2 = self.gen_int(&rcx, 1, xr);
+          let m = 256;
+          let b = base.r.0.abs().max(base.r.1.abs()) + e.r.0.abs().max(e.r.1.abs());
+          (
+            format!("function {name}(fuel: int, x: int): int = if fuel <= 1 {{ {} }} else {{ ({cname}.{name}(fuel - 1, {}) + {cname}.{name}(fuel - 2, {})) + {} }}", base.s, ax.s, ax2.s, par(&e)),
+            (-m * b, m * b),
+          )
+        } else {
+          let order = self.rng.chance(1, 2);
+          let rr = hull(base.r, radd(base.r, (e.r.0.min(0) * fmax, e.r.1.max(0) * fmax)));
+          let call = format!("{cname}.{name}(fuel - 1, {})", ax.s);
+          let comb = if order { format!("{call} + {}", par(&e)) } else { format!("{} + {call}", par(&e)) };
+          (format!("function {name}(fuel: int, x: int): int = if fuel <= 0 {{ {} }} else {{ {comb} }}", base.s), rr)
+        };
+        let (level, cost, pure) = self.end_fn();
+        self.classes[ci].members.push(text);
+        let mut s = self.plain_sig(cname, None, &name, vec![("fuel".into(), Ty::Int, (0, fmax)), ("x".into(), Ty::Int, xr)], Ty::Int, rr, module, level, cost * if binary { 70 } else { 9 }, pure);
+        s.noref = true;
+        s.feats = vec!["fuel-recursion", if binary { "binary-recursion" } else { "linear-recursion" }];
+        self.push_sig(s);
+      }
+      2 => {
+        // builder of a recursive value
+        let recs: Vec<Ty> = self.vpool(module).into_iter().filter(|t| self.is_rec(t)).collect();
+        let mut done = false;
+        if !recs.is_empty() {
+          let t = recs[self.rng.below(recs.len())].clone();
+          let vs = self.variants_of(&t).unwrap();
+          let cand: Vec<&Variant> = vs.iter().filter(|v| v.args.iter().any(|a| a.0 == t) && v.args.iter().all(|a| a.0 == t || !self.is_rec(&a.0))).collect();
+          if !cand.is_empty() {
+            let v = cand[self.rng.below(cand.len())].clone();
+            let p = v.args.iter().filter(|a| a.0 == t).count() as i64;
+            let fmax: i64 = if p == 1 { 8 } else { 4 };
+            cx.push("fuel", &Ty::Int, (0, fmax));
+            cx.push("x", &Ty::Int, xr);
+            let base = self.minimal(&t, &cx, NODES);
+            let mut rcx = cx.clone();
+            rcx.vars[0].r = (1, fmax);
+            rcx.mult = if p == 1 { 8 } else { 16 };
+            let mut args = vec![];
+            for (at, ar) in &v.args {
+              if *at == t {
+                let ax = self.gen_int(&rcx, 1, xr);
+                args.push(format!("{cname}.{name}(fuel - 1, {})", ax.s));
+              } else {
+                args.push(self.gen(at, &rcx, 1, *ar).s);
+              }
+            }
+            let Ty::C(tn, _) = &t else { unreachable!() };
+            let text = format!("function {name}(fuel: int, x: int): {} = if fuel <= 0 {{ {} }} else {{ {tn}.{}({}) }}", t.txt(), base.s, v.name, args.join(", "));
+            let nodes = if p == 1 { fmax + 1 } else { (1 << (fmax + 1)) - 1 };
+            let (level, cost, pure) = self.end_fn();
+            self.classes[ci].members.push(text);
+            let mut s = self.plain_sig(cname, None, &name, vec![("fuel".into(), Ty::Int, (0, fmax)), ("x".into(), Ty::Int, xr)], t.clone(), (0, nodes), module, level, cost * nodes as u64, pure);
+            s.noref = true;
+            s.feats = vec!["fuel-recursion", "recursive-builder"];
+            self.push_sig(s);
+            done = true;
+          }
+        }
+        if !done {
+          self.gen_loop(cname, module);
+        }
+      }
+      _ => {
+        // mutual recursion between two functions
+        let other = self.fresh("rec");
+        let fmax: i64 = 8;
+        cx.push("fuel", &Ty::Int, (0, fmax));
+        cx.push("x", &Ty::Int, xr);
+        let mut rcx = cx.clone();
+        rcx.vars[0].r = (1, fmax);
+        rcx.mult = 8;
+        let b1 = self.gen_int(&cx, 1, (-100, 100));
+        let b2 = self.gen_int(&cx, 1, (-100, 100));
+        let e1 = self.gen_int(&rcx, 1, (-300, 300));
+        let e2 = self.gen_int(&rcx, 1, (-300, 300));
+        let a1 = self.gen_int(&rcx, 1, xr);
+        let a2 = self.gen_int(&rcx, 1, xr);
+        let t1 = format!("function {name}(fuel: int, x: int): int = if fuel <= 0 {{ {} }} else {{ {cname}.{other}(fuel - 1, {}) + {} }}", b1.s, a1.s, par(&e1));
+        let t2 = format!("function {other}(fuel: int, x: int): int = if fuel > 0 {{ {} + {cname}.{name}(fuel - 1, {}) }} else {{ {} }}", par(&e2), a2.s, b2.s);
+        let b = hull(b1.r, b2.r);
+        let e = hull(e1.r, e2.r);
+        let rr = hull(b, radd(b, (e.0.min(0) * fmax, e.1.max(0) * fmax)));
+        let (level, cost, pure) = self.end_fn();
+        self.classes[ci].members.push(t1);
+        self.classes[ci].members.push(t2);
+        for n in [name.clone(), other.clone()] {
+          let mut s = self.plain_sig(cname, None, &n, vec![("fuel".into(), Ty::Int, (0, fmax)), ("x".into(), Ty::Int, xr)], Ty::Int, rr, module, level, cost * 9, pure);
+          s.noref = true;
+          s.feats = vec!["fuel-recursion", "mutual-recursion"];
+          self.push_sig(s);
+        }
+      }
+    }
+  }
+
+  // ------------------------------------------------------------------ fixed helpers
+  fn emit_hof_class(&mut self, module: usize) {
+    let cname = self.fresh("Fn");
+    let f1 = Ty::func(vec![Ty::Int], Ty::Int);
+    let c = 1 + self.rng.below(9) as i64;
+    let mut members = vec![];
+    let mut sigs: Vec<Sig> = vec![];
+    let mk = |g: &G, name: &str, params: Vec<(String, Ty, R)>, ret: Ty, rr: R, cost: u64| {
+      let mut s = g.plain_sig(&cname, None, name, params, ret, rr, module, 2, cost, true);
+      s.feats = vec!["higher-order-function"];
+      s
+    };
+    let picks: Vec<usize> = {
+      let mut v: Vec<usize> = (0..7).collect();
+      for i in (1..v.len()).rev() {
+        let j = self.rng.below(i + 1);
+        v.swap(i, j);
+      }
+      v.truncate(if self.prof == Profile::Closures { 5 } else { 3 });
+      v
+    };
+    for p in picks {
+      match p {
+        0 => {
+          members.push("function applyTwice(f: (int) -> int, x: int): int = f(f(x) % 100)".to_string());
+          sigs.push(mk(self, "applyTwice", vec![("f".into(), f1.clone(), ANY), ("x".into(), Ty::Int, FNP)], Ty::Int, STORE, 100));
+        }
+        1 => {
+          members.push("function compose(f: (int) -> int, g: (int) -> int): (int) -> int = (x) -> f(g(x) % 100)".to_string());
+          sigs.push(mk(self, "compose", vec![("f".into(), f1.clone(), ANY), ("g".into(), f1.clone(), ANY)], f1.clone(), ANY, 100));
+        }
+        2 => {
+          members.push(format!("function makeAdder(n: int): (int) -> int = (x) -> (x * {c}) + n"));
+          sigs.push(mk(self, "makeAdder", vec![("n".into(), Ty::Int, (-50, 50))], f1.clone(), ANY, 20));
+        }
+        3 => {
+          members.push("function pipeline(x: int, fs: List<(int) -> int>): int = fs.fold((acc, fn) -> fn(acc % 100), x)".to_string());
+          sigs.push(mk(self, "pipeline", vec![("x".into(), Ty::Int, STORE), ("fs".into(), Ty::list(f1.clone()), LLEN)], Ty::Int, STORE, 600));
+        }
+        4 => {
+          members.push(format!("function curried(a: int): (int) -> (int) -> int = (b) -> (c) -> (a + b) - (c * {c})"));
+          sigs.push(mk(self, "curried", vec![("a".into(), Ty::Int, FNP)], Ty::func(vec![Ty::Int], f1.clone()), ANY, 20));
+        }
+        5 => {
+          members.push("function select(flag: bool, f: (int) -> int, g: (int) -> int): (int) -> int = if flag { f } else { g }".to_string());
+          sigs.push(mk(self, "select", vec![("flag".into(), Ty::Bool, ANY), ("f".into(), f1.clone(), ANY), ("g".into(), f1.clone(), ANY)], f1.clone(), ANY, 10));
+        }
+        _ => {
+          members.push("function countIf(l: List<int>, p: (int) -> bool): int = l.filter(p).length()".to_string());
+          sigs.push(mk(self, "countIf", vec![("l".into(), Ty::list(Ty::Int), LLEN), ("p".into(), Ty::func(vec![Ty::Int], Ty::Bool), ANY)], Ty::Int, (0, 12), 700));
+        }
+      }
+    }
+    self.add_class(Class { name: cname.clone(), module, tparams: vec![], kind: Kind::Util, rec: false, private: false, supers: String::new(), members });
+    for s in sigs {
+      self.push_sig(s);
+    }
+    if !self.pool.contains(&f1) {
+      self.pool.push(f1);
+    }
+  }
+
+  fn emit_vec_class(&mut self, module: usize) {
+    let cname = self.fresh("Vecs");
+    let vi = Ty::V(Box::new(Ty::Int));
+    let k = 1 + self.rng.below(7) as i64;
+    let members = vec![
+      format!("function fill(v: Vec<int>, i: int, n: int): int = if i >= n {{ v.length() }} else {{\nv.push((i * {k}) - 3);\n{cname}.fill(v, i + 1, n)\n}}"),
+      format!("function sum(v: Vec<int>, i: int, acc: int): int = if i < v.length() {{ {cname}.sum(v, i + 1, acc + v.get(i)) }} else {{ acc }}"),
+      format!("function bump(v: Vec<int>, i: int): unit = if i < v.length() {{\nv.set(i, (v.get(i) % 400) + {k});\n{cname}.bump(v, i + 1)\n}} else {{  }}"),
+      format!("function drain(v: Vec<int>, acc: Str): Str = if v.length() > 0 {{ {cname}.drain(v, (acc :: Str.fromInt(v.pop())) :: \",\") }} else {{ acc }}"),
+    ];
+    self.add_class(Class { name: cname.clone(), module, tparams: vec![], kind: Kind::Util, rec: false, private: false, supers: String::new(), members });
+    let mut mk = |name: &str, params: Vec<(String, Ty, R)>, ret: Ty, rr: R, cost: u64| {
+      let mut s = self.plain_sig(&cname, None, name, params, ret, rr, module, 1, cost, false);
+      s.noref = true;
+      s.feats = vec!["vec-ops", "vec-loop", "tail-loop"];
+      self.sigs.push(s);
+    };
+    mk("fill", vec![("v".into(), vi.clone(), ANY), ("i".into(), Ty::Int, (0, 0)), ("n".into(), Ty::Int, (0, 40))], Ty::Int, (0, VLEN), 400);
+    mk("sum", vec![("v".into(), vi.clone(), ANY), ("i".into(), Ty::Int, (0, 0)), ("acc".into(), Ty::Int, (-1000, 1000))], Ty::Int, (-1000 - VLEN * 1000, 1000 + VLEN * 1000), 600);
+    mk("bump", vec![("v".into(), vi.clone(), ANY), ("i".into(), Ty::Int, (0, 0))], Ty::Unit, ANY, 800);
+    mk("drain", vec![("v".into(), vi.clone(), ANY), ("acc".into(), Ty::Str, (0, 10))], Ty::Str, (0, 10 + VLEN * 12), 800);
+    if !self.pool.contains(&vi) {
+      self.pool.push(vi);
+    }
+  }
+
+  fn emit_showstd(&mut self) {
+    let members = vec![
+      "function showBool(b: bool): Str = if b { \"T\" } else { \"F\" }".to_string(),
+      "function <T> showList(l: List<T>, f: (T) -> Str): Str = (\"[\" :: l.fold((acc, x) -> (acc :: f(x)) :: \";\", \"\")) :: \"]\"".to_string(),
+      "function <T> showOpt(o: Option<T>, f: (T) -> Str): Str =\nmatch o {\nNone -> \"None\",\nSome(x) -> (\"Some(\" :: f(x)) :: \")\",\n}".to_string(),
+      "function <A, B> showPair(p: Pair<A, B>, f: (A) -> Str, g: (B) -> Str): Str = (((\"<\" :: f(p.e0)) :: \",\") :: g(p.e1)) :: \">\"".to_string(),
+      "function <T> showVec(v: Vec<T>, f: (T) -> Str, i: int, acc: Str): Str = if i < v.length() { ShowStd.showVec(v, f, i + 1, (acc :: f(v.get(i))) :: \";\") } else { acc :: \"]\" }".to_string(),
+    ];
+    self.add_class(Class { name: "ShowStd".into(), module: 0, tparams: vec![], kind: Kind::Util, rec: false, private: false, supers: String::new(), members });
+  }
+
+  // ------------------------------------------------------------------ whole program
+  fn total_lines(&self) -> usize {
+    let mut n = 0;
+    for m in 0..=self.nlibs {
+      n += 4; // imports
+      for c in self.classes.iter().filter(|c| c.module == m) {
+        n += 3;
+        if let Kind::Iface(b) = &c.kind {
+          n += b.matches('\n').count() + 1;
+        }
+        for mem in &c.members {
+          n += mem.matches('\n').count() + 1;
+        }
+      }
+    }
+    n
+  }
+
+  fn build_members(&mut self) {
+    let prof = self.prof;
+    self.emit_showstd();
+    // show + structural recursion for every user class
+    let idxs: Vec<usize> = (0..self.classes.len()).filter(|i| self.classes[*i].module != STD).collect();
+    for ci in &idxs {
+      self.emit_show(*ci);
+      self.emit_structural(*ci);
+    }
+    // utility classes
+    let main_mod = self.nlibs;
+    let nutil = 1 + self.rng.below(2);
+    let mut utils = vec![];
+    for k in 0..nutil {
+      let m = if k == 0 { self.rng.below(self.nlibs) } else { self.rng.below(self.nlibs + 1) };
+      let name = self.fresh("Util");
+      let private = m < main_mod && self.rng.chance(1, 8);
+      self.add_class(Class { name: name.clone(), module: m, tparams: vec![], kind: Kind::Util, rec: false, private, supers: String::new(), members: vec![] });
+      if private {
+        self.feat("private-class");
+      }
+      utils.push((name, m));
+    }
+    if prof == Profile::Closures || self.rng.chance(1, 3) {
+      let m = self.rng.below(self.nlibs + 1);
+      self.emit_hof_class(m);
+    }
+    if prof != Profile::Enums && self.rng.chance(if prof == Profile::Mixed { 2 } else { 1 }, 5) {
+      let m = self.rng.below(self.nlibs + 1);
+      self.emit_vec_class(m);
+    }
+    // members of data classes
+    let data: Vec<(String, usize)> = self.classes.iter().filter(|c| c.module != STD && c.tparams.is_empty() && matches!(c.kind, Kind::Struct(_) | Kind::Enum(_))).map(|c| (c.name.clone(), c.module)).collect();
+    let budget_a = match prof {
+      Profile::Loops | Profile::Boundary => 110,
+      _ => 140,
+    };
+    for (cn, m) in &data {
+      if self.total_lines() > budget_a {
+        break;
+      }
+      let has_int_field = self.fields_of(&Ty::cls(cn)).map(|fs| fs.iter().any(|f| f.ty == Ty::Int)).unwrap_or(false);
+      if has_int_field && self.rng.chance(if prof == Profile::Closures { 3 } else { 1 }, 5) {
+        self.gen_closure_method(cn, *m);
+      }
+      let k = self.rng.below(3);
+      for j in 0..k {
+        if self.total_lines() > budget_a {
+          break;
+        }
+        let private = j == 1 && self.rng.chance(1, 3);
+        let is_method = self.rng.chance(4, 5);
+        self.gen_member(cn, *m, is_method, private, 2);
+      }
+    }
+    // special functions in the utility classes
+    let (nloops, nfuel, nrand) = match prof {
+      Profile::Loops => (5 + self.rng.below(3), self.rng.below(2), 1),
+      Profile::Boundary => (3 + self.rng.below(2), 1, 2),
+      Profile::Enums => (self.rng.below(2), 1 + self.rng.below(2), 2),
+      Profile::Closures => (1, 1, 3),
+      Profile::Strings => (1 + self.rng.below(2), 1, 3),
+      Profile::Mixed => (1 + self.rng.below(3), 1 + self.rng.below(2), 2 + self.rng.below(2)),
+    };
+    let budget_b = 185;
+    let mut plan: Vec<u8> = vec![];
+    plan.extend(std::iter::repeat(0u8).take(nloops));
+    plan.extend(std::iter::repeat(1u8).take(nfuel));
+    plan.extend(std::iter::repeat(2u8).take(nrand));
+    for i in (1..plan.len()).rev() {
+      let j = self.rng.below(i + 1);
+      plan.swap(i, j);
+    }
+    for p in plan {
+      if self.total_lines() > budget_b {
+        break;
+      }
+      let (u, m) = utils[self.rng.below(utils.len())].clone();
+      match p {
+        0 => self.gen_loop(&u, m),
+        1 => self.gen_fuel(&u, m),
+        _ => self.gen_member(&u, m, false, false, 3),
+      }
+    }
+    // a private helper used by a public wrapper (private members are callable only inside their class)
+    if self.rng.chance(1, 3) && self.total_lines() < budget_b {
+      let (u, m) = utils[0].clone();
+      self.gen_member(&u, m, false, true, 2);
+      self.gen_member(&u, m, false, false, 2);
+    }
+  }
+
+  fn build_main(&mut self) -> Vec<String> {
+    let main_mod = self.nlibs;
+    let mut cx = self.base_ctx("Main", main_mod, 5);
+    self.begin_fn();
+    let mut lines: Vec<String> = vec![];
+    let mut k = 0;
+    let emit = |g: &mut G, lines: &mut Vec<String>, cx: &mut Ctx, k: &mut usize, e: E, ty: &Ty| {
+      *k += 1;
+      let n = format!("r{k}");
+      lines.push(format!("let {n} = {};", e.s));
+      lines.push(format!("Process.println(\"m{k}\");"));
+      let shown = g.show_expr(ty, &n, 0);
+      lines.push(format!("Process.println({shown});"));
+      cx.push(&n, ty, if g.sized(ty) { e.r } else { ANY });
+    };
+    let count_lines = |lines: &Vec<String>| lines.iter().map(|l| l.matches('\n').count() + 1).sum::<usize>();
+    // deep constructor-only values of the enum types, decoded by their show functions and methods
+    let etys: Vec<Ty> = self.vpool(main_mod).into_iter().filter(|t| self.variants_of(t).is_some() && !matches!(t, Ty::C(n, _) if n == "List" || n == "Option")).collect();
+    let nvals = match self.prof {
+      Profile::Enums => etys.len().min(6),
+      Profile::Mixed => etys.len().min(2),
+      _ => etys.len().min(1),
+    };
+    let mut picked: Vec<Ty> = etys.clone();
+    for i in (1..picked.len()).rev() {
+      let j = self.rng.below(i + 1);
+      picked.swap(i, j);
+    }
+    picked.sort_by_key(|t| if self.is_rec(t) { 0 } else if self.variants_of(t).unwrap().iter().any(|v| v.args.iter().any(|a| matches!(a.0, Ty::C(..)))) { 1 } else { 2 });
+    for t in picked.into_iter().take(nvals) {
+      let e = self.deep_value(&t, &cx, 3, self.dflt(&t));
+      emit(self, &mut lines, &mut cx, &mut k, e, &t);
+    }
+    // then: call every function that has not been used yet (most interesting first)
+    let mut order: Vec<usize> = (0..self.sigs.len()).collect();
+    order.sort_by_key(|i| {
+      let s = &self.sigs[*i];
+      match s.kind {
+        SK::Loop(_) => 0,
+        _ if s.feats.contains(&"fuel-recursion") => 1,
+        _ if s.feats.contains(&"bounded-generic") => 2,
+        _ if s.feats.contains(&"higher-order-function") => 3,
+        _ => 4,
+      }
+    });
+    let base_lines = self.total_lines();
+    for i in order {
+      if base_lines + count_lines(&lines) > LINE_BUDGET - 12 || self.cost > MAINCAP {
+        break;
+      }
+      let s = self.sigs[i].clone();
+      if s.used > 0 && !matches!(s.kind, SK::Loop(_)) {
+        continue;
+      }
+      if s.private || s.modpriv || s.module > main_mod || s.level > 5 || s.cost > CALLCAP {
+        continue;
+      }
+      let reps = if matches!(s.kind, SK::Loop(_)) { 1 + self.rng.below(2) } else { 1 };
+      for _ in 0..reps {
+        let saved = self.cost;
+        self.cost = 0;
+        let e = self.call_sig(i, &cx, 2, None);
+        self.cost = saved.saturating_add(self.cost);
+        if let Some(e) = e {
+          let ty = s.ret.clone();
+          emit(self, &mut lines, &mut cx, &mut k, e, &ty);
+        }
+      }
+    }
+    // then: free results of pool types
+    let mut guard = 0;
+    while base_lines + count_lines(&lines) < LINE_BUDGET - 14 && self.cost < MAINCAP && guard < 14 {
+      guard += 1;
+      let ty = self.pick_ty(main_mod);
+      let saved = self.cost;
+      self.cost = 0;
+      let e = self.gen(&ty, &cx, 3, self.wide(&ty));
+      self.cost = saved.saturating_add(self.cost);
+      let added = e.s.matches('\n').count() + 3;
+      if base_lines + count_lines(&lines) + added > LINE_BUDGET - 2 {
+        continue;
+      }
+      emit(self, &mut lines, &mut cx, &mut k, e, &ty);
+    }
+    // designated abnormal endings
+    let x = self.rng.below(100);
+    if x < 10 {
+      self.feat("end-panic");
+      lines.push(format!("Process.panic<unit>(\"boom{}\");", self.rng.below(100)));
+    } else if x < 15 {
+      self.feat("end-vec-oob");
+      let n = 1 + self.rng.below(3);
+      lines.push("let vz = Vec.empty<int>();".into());
+      for j in 0..n {
+        lines.push(format!("vz.push({});", j + 1));
+      }
+      let idx = n as i64 + *self.rng.pick(&[0i64, 1, 7]);
+      lines.push(format!("Process.println(Str.fromInt(vz.get({idx})));"));
+    }
+    lines.push("Process.println(\"end\");".into());
+    lines
+  }
+
+  fn module_name(&self, m: usize) -> String {
+    if m == self.nlibs {
+      "Main".into()
+    } else {
+      format!("Lib{}", m + 1)
+    }
+  }
+
+  fn render(&mut self, main_lines: Vec<String>) -> BTreeMap<String, String> {
+    let mut out = BTreeMap::new();
+    for m in 0..=self.nlibs {
+      let mut body = String::new();
+      for c in self.classes.iter().filter(|c| c.module == m) {
+        if c.members.is_empty() && matches!(c.kind, Kind::Util) {
+          continue;
+        }
+        let tp = if c.tparams.is_empty() { String::new() } else { format!("<{}>", c.tparams.join(", ")) };
+        let pv = if c.private { "private " } else { "" };
+        let head = match &c.kind {
+          Kind::Struct(fs) => format!(
+            "{pv}class {}{tp}({}){} {{",
+            c.name,
+            fs.iter().map(|f| format!("{}val {}: {}", if f.private { "private " } else { "" }, f.name, f.ty.txt())).collect::<Vec<_>>().join(", "),
+            c.supers
+          ),
+          Kind::Enum(vs) => format!(
+            "{pv}class {}{tp}({}){} {{",
+            c.name,
+            vs.iter().map(|v| if v.args.is_empty() { v.name.clone() } else { format!("{}({})", v.name, v.args.iter().map(|a| a.0.txt()).collect::<Vec<_>>().join(", ")) }).collect::<Vec<_>>().join(", "),
+            c.supers
+          ),
+          Kind::Util => format!("{pv}class {} {{", c.name),
+          Kind::Iface(_) => format!("interface {}{tp} {{", c.name),
+        };
+        body.push_str(&head);
+        body.push('\n');
+        if let Kind::Iface(b) = &c.kind {
+          body.push_str(b);
+          body.push('\n');
+        }
+        for mem in &c.members {
+          body.push_str(mem);
+          body.push('\n');
+        }
+        body.push_str("}\n\n");
+      }
+      if m == self.nlibs {
+        body.push_str("class Main {\nfunction main(): unit = {\n");
+        for l in &main_lines {
+          body.push_str(l);
+          body.push('\n');
+        }
+        body.push_str("}\n}\n");
+      }
+      // imports: only names that occur in the text
+      let mut imports = String::new();
+      for j in 0..m {
+        let names: Vec<String> = self.classes.iter().filter(|c| c.module == j && !c.private && mentions(&body, &c.name)).map(|c| c.name.clone()).collect();
+        if !names.is_empty() {
+          imports.push_str(&format!("import {{ {} }} from {};\n", names.join(", "), self.module_name(j)));
+        }
+      }
+      for (n, md) in [("List", "std.list"), ("Option", "std.option"), ("Pair", "std.tuples")] {
+        if mentions(&body, n) {
+          imports.push_str(&format!("import {{ {n} }} from {md};\n"));
+        }
+      }
+      if !imports.is_empty() {
+        imports.push('\n');
+      }
+      let text = indent(&format!("{imports}{body}"));
+      if body.trim().is_empty() {
+        continue;
+      }
+      out.insert(self.module_name(m), text);
+    }
+    out
+  }
+}
+
+fn mentions(text: &str, name: &str) -> bool {
+  let b = text.as_bytes();
+  let mut from = 0;
+  while let Some(p) = text[from..].find(name) {
+    let s = from + p;
+    let e = s + name.len();
+    let before_ok = s == 0 || !(b[s - 1].is_ascii_alphanumeric());
+    let after_ok = e >= b.len() || !(b[e].is_ascii_alphanumeric());
+    if before_ok && after_ok {
+      return true;
+    }
+    from = e;
+  }
+  false
+}
+
+/// re-indents by bracket depth (string literals are skipped)
+fn indent(text: &str) -> String {
+  let mut out = String::new();
+  let mut depth: i32 = 0;
+  for line in text.lines() {
+    let l = line.trim();
+    if l.is_empty() {
+      out.push('\n');
+      continue;
+    }
+    let mut lead = 0;
+    for ch in l.chars() {
+      if ch == '}' || ch == ')' {
+        lead += 1;
+      } else {
+        break;
+      }
+    }
+    let ind = (depth - lead).max(0);
+    for _ in 0..ind {
+      out.push_str("  ");
+    }
+    out.push_str(l);
+    out.push('\n');
+    let mut in_str = false;
+    let mut esc = false;
+    for ch in l.chars() {
+      if in_str {
+        if esc {
+          esc = false;
+        } else if ch == '\\' {
+          esc = true;
+        } else if ch == '"' {
+          in_str = false;
+        }
+        continue;
+      }
+      match ch {
+        '"' => in_str = true,
+        '{' | '(' => depth += 1,
+        '}' | ')' => depth -= 1,
+        _ => {}
+      }
+    }
+  }
+  while out.ends_with("\n\n") {
+    out.pop();
+  }
+  out
+}
+
+fn generate(seed: u64, k: u64, prof: Profile, allow: &BTreeSet<String>) -> serde_json::Value {
+  let pname = format!("{prof:?}").to_lowercase();
+  for attempt in 0..20u64 {
+    let sub = seed.wrapping_mul(1_000_003).wrapping_add(k).wrapping_mul(31).wrapping_add(attempt);
+    let mut g = G::new(sub, prof, allow.clone());
+    g.build_world();
+    g.build_members();
+    let main_lines = g.build_main();
+    let sources = g.render(main_lines);
+    let lines: usize = sources.values().map(|s| s.lines().count()).sum();
+    if lines > 250 {
+      continue;
+    }
+    let feats: Vec<&str> = g.feats.iter().cloned().collect();
+    return json!({
+      "id": k,
+      "origin": format!("gen:{seed}:{k}:{pname}"),
+      "entry": "Main",
+      "sources": sources,
+      "features": feats,
+      "lines": lines,
+      "est_cost": g.cost,
+    });
+  }
+  // fallback: a trivial program (never expected)
+  let mut sources = BTreeMap::new();
+  sources.insert("Main".to_string(), "class Main {\n  function main(): unit = Process.println(\"fallback\")\n}\n".to_string());
+  json!({"id": k, "origin": format!("gen:{seed}:{k}:{pname}"), "entry": "Main", "sources": sources, "features": ["fallback"], "lines": 3})
+}
+
+/// `vh gen-programs --seed N --n COUNT --out FILE [--profile P] [--allow a,b,...]`
+pub fn main(args: &[String]) {
+  let seed: u64 = arg_or(args, "--seed", "1").parse().expect("--seed");
+  let n: u64 = arg_or(args, "--n", "10").parse().expect("--n");
+  let out = arg(args, "--out").expect("--out");
+  let prof = match arg_or(args, "--profile", "mixed").as_str() {
+    "mixed" => Profile::Mixed,
+    "loops" => Profile::Loops,
+    "enums" => Profile::Enums,
+    "closures" => Profile::Closures,
+    "strings" => Profile::Strings,
+    "boundary" => Profile::Boundary,
+    p => {
+      eprintln!("unknown profile {p} (mixed|loops|enums|closures|strings|boundary)");
+      std::process::exit(2);
+    }
+  };
+  // regions that are on by default and can be switched off with --deny
+  let mut allow: BTreeSet<String> = ["genmethodref"].iter().map(|s| s.to_string()).collect();
+  let mut i = 0;
+  while i < args.len() {
+    if args[i] == "--allow" || args[i] == "--deny" {
+      if let Some(v) = args.get(i + 1) {
+        for a in v.split(',') {
+          if args[i] == "--allow" {
+            allow.insert(a.trim().to_string());
+          } else {
+            allow.remove(a.trim());
+          }
+        }
+      }
+    }
+    i += 1;
+  }
+  let mut f = std::io::BufWriter::new(std::fs::File::create(&out).unwrap());
+  let mut census: BTreeMap<String, usize> = BTreeMap::new();
+  for k in 0..n {
+    let p = generate(seed, k, prof, &allow);
+    for ft in p["features"].as_array().unwrap() {
+      *census.entry(ft.as_str().unwrap().to_string()).or_default() += 1;
+    }
+    writeln!(f, "{p}").unwrap();
+  }
+  f.flush().unwrap();
+  println!("{}", json!({"programs": n, "profile": format!("{prof:?}").to_lowercase(), "census": census}));
+}
+
